@@ -1,15 +1,1432 @@
-(* Lemmas about Model/Cbor.v (ABI canonical CBOR). *)
+(* Lemmas about Model/Cbor.v (ABI canonical CBOR): heads, the canonical direction
+   (accepted bytes re-encode identically) and the round-trip direction. *)
 From Coq Require Import List NArith ZArith Bool Lia.
-From Echo Require Import Base.Bytes Base.Order Model.Cbor.
+From Echo Require Import Base.Bytes Base.Order Model.Cbor Proofs.CborFloatProofs.
 Import ListNotations.
 Open Scope N_scope.
 
-(* ------------------------------------------------------------------ refutations on the code as it is *)
+(* ================================================================== bytes, heads *)
+(* ------------------------------------------------------------------ generic helpers *)
 
-(* F4: a half-precision NaN with a payload is accepted and re-encodes differently *)
-Lemma canonical_refuted_f16_nan :
-  exists b v, wf_bytes b = true /\ decode b = Ok v /\ enc v <> Ok b.
+Lemma bind_ok {A B} (r : result A) (f : A -> result B) x :
+  bind r f = Ok x -> exists a, r = Ok a /\ f a = Ok x.
+Proof. destruct r as [a|e]; cbn; [eauto|discriminate]. Qed.
+
+Lemma bind_eq {A B} (r : result A) (f : A -> result B) a : r = Ok a -> bind r f = f a.
+Proof. intros ->. reflexivity. Qed.
+
+Lemma wf_bytes_cons b l : wf_bytes (b :: l) = true <-> b < 256 /\ wf_bytes l = true.
 Proof.
-  exists [0xf9; 0x7e; 0x01], (VFloat 0x7ff8040000000000).
-  split; [reflexivity|]. split; [vm_compute; reflexivity|]. vm_compute. discriminate.
+  unfold wf_bytes; cbn [forallb]. rewrite andb_true_iff. unfold byteb. rewrite N.ltb_lt. tauto.
 Qed.
+
+Lemma wf_bytes_app_iff a b : wf_bytes (a ++ b) = true <-> wf_bytes a = true /\ wf_bytes b = true.
+Proof. rewrite wf_bytes_app, andb_true_iff. tauto. Qed.
+
+Lemma wf_bytes_firstn n l : wf_bytes l = true -> wf_bytes (firstn n l) = true.
+Proof.
+  revert l; induction n as [|n IH]; intros [|x l] H; cbn [firstn]; auto.
+  apply wf_bytes_cons in H as [Hx Hl]. apply wf_bytes_cons. auto.
+Qed.
+
+Lemma wf_bytes_skipn n l : wf_bytes l = true -> wf_bytes (skipn n l) = true.
+Proof.
+  revert l; induction n as [|n IH]; intros [|x l] H; cbn [skipn]; auto.
+  apply wf_bytes_cons in H as [Hx Hl]. auto.
+Qed.
+
+Lemma wf_bytes_rev l : wf_bytes (rev l) = wf_bytes l.
+Proof.
+  induction l as [|x l IH]; cbn [rev]; auto.
+  rewrite wf_bytes_app, IH. unfold wf_bytes; cbn [forallb]. rewrite andb_true_r, andb_comm. reflexivity.
+Qed.
+
+(* little/big endian round trips *)
+Lemma from_le_bound l : wf_bytes l = true -> from_le l < 256 ^ N.of_nat (length l).
+Proof.
+  induction l as [|x l IH]; intros H.
+  - cbn. lia.
+  - apply wf_bytes_cons in H as [Hx Hl]. specialize (IH Hl).
+    cbn [from_le length]. replace (N.of_nat (S (length l))) with (N.succ (N.of_nat (length l))) by lia.
+    rewrite N.pow_succ_r'. nia.
+Qed.
+
+Lemma le_bytes_from_le l : wf_bytes l = true -> le_bytes (length l) (from_le l) = l.
+Proof.
+  induction l as [|x l IH]; intros H; [reflexivity|].
+  apply wf_bytes_cons in H as [Hx Hl].
+  cbn [length le_bytes from_le].
+  replace (x + 256 * from_le l) with (x + from_le l * 256) by lia.
+  rewrite N.mod_add, N.div_add by lia.
+  rewrite N.mod_small, N.div_small by auto. cbn [N.add].
+  rewrite IH; auto.
+Qed.
+
+Lemma from_be_be_bytes n x : x < 256 ^ N.of_nat n -> from_be (be_bytes n x) = x.
+Proof.
+  intros H. unfold from_be, be_bytes. rewrite rev_involutive, from_le_le_bytes. apply N.mod_small; auto.
+Qed.
+
+Lemma be_bytes_from_be l : wf_bytes l = true -> be_bytes (length l) (from_be l) = l.
+Proof.
+  intros H. unfold from_be, be_bytes.
+  rewrite <- (rev_length l). rewrite le_bytes_from_le by (rewrite wf_bytes_rev; auto).
+  apply rev_involutive.
+Qed.
+
+Lemma from_be_bound l : wf_bytes l = true -> from_be l < 256 ^ N.of_nat (length l).
+Proof.
+  intros H. unfold from_be. rewrite <- (rev_length l). apply from_le_bound. rewrite wf_bytes_rev; auto.
+Qed.
+
+Lemma be_bytes_wf n x : wf_bytes (be_bytes n x) = true.
+Proof. unfold be_bytes. rewrite wf_bytes_rev. apply le_bytes_wf. Qed.
+
+(* read_uint *)
+Lemma read_uint_ok k r v r1 :
+  read_uint k r = Ok (v, r1) ->
+  exists ext, r = ext ++ r1 /\ length ext = k /\ v = from_be ext.
+Proof.
+  unfold read_uint. destruct (Nat.ltb_spec (length r) k) as [Hlt|Hge]; [discriminate|].
+  intros H; inversion H; subst. exists (firstn k r). split; [symmetry; apply firstn_skipn|].
+  split; [apply firstn_length_le; auto|reflexivity].
+Qed.
+
+Lemma read_uint_app ext rest :
+  read_uint (length ext) (ext ++ rest) = Ok (from_be ext, rest).
+Proof.
+  unfold read_uint. rewrite app_length.
+  destruct (Nat.ltb_spec (length ext + length rest) (length ext)) as [Hlt|Hge]; [lia|].
+  rewrite firstn_app, Nat.sub_diag, firstn_all. cbn [firstn]. rewrite app_nil_r.
+  rewrite skipn_app, Nat.sub_diag, skipn_all. reflexivity.
+Qed.
+
+(* heads *)
+Definition info_of (n : N) : N :=
+  if n <? 24 then n else if n <? 256 then 24 else if n <? 65536 then 25 else if n <? 4294967296 then 26 else 27.
+
+Lemma read_uint_be k n rest :
+  n < 256 ^ N.of_nat k -> read_uint k (be_bytes k n ++ rest) = Ok (n, rest).
+Proof.
+  intros H. rewrite <- (be_bytes_length k n) at 1. rewrite read_uint_app, from_be_be_bytes; auto.
+Qed.
+
+Lemma write_major_shape major n :
+  n < 2 ^ 64 ->
+  exists ext, write_major major n = (major * 32 + info_of n) :: ext /\ info_of n < 32 /\
+    wf_bytes ext = true /\
+    forall rest, read_len (info_of n) (ext ++ rest) = Ok (n, rest).
+Proof.
+  intros Hn. unfold write_major, info_of.
+  destruct (N.ltb_spec n 24) as [H1|H1].
+  { exists []. split; [reflexivity|]. split; [lia|]. split; [reflexivity|]. intros rest. unfold read_len.
+    destruct (N.ltb_spec n 24); [reflexivity|lia]. }
+  destruct (N.ltb_spec n 256) as [H2|H2].
+  { assert (E1 : be_bytes 1 n = [n]).
+    { unfold be_bytes. cbn [le_bytes rev app]. rewrite N.mod_small; auto. }
+    exists [n]. split; [reflexivity|]. split; [lia|]. split; [rewrite <- E1; apply be_bytes_wf|].
+    intros rest. rewrite <- E1. unfold read_len. change (24 <? 24) with false. change (24 =? 24) with true. cbv iota.
+    rewrite read_uint_be by (change (256 ^ N.of_nat 1) with 256; lia). cbn [bind].
+    destruct (N.leb_spec n 23); [lia|reflexivity]. }
+  destruct (N.ltb_spec n 65536) as [H3|H3].
+  { exists (be_bytes 2 n). split; [reflexivity|]. split; [lia|]. split; [apply be_bytes_wf|].
+    intros rest. unfold read_len. change (25 <? 24) with false. change (25 =? 24) with false. change (25 =? 25) with true. cbv iota.
+    rewrite read_uint_be by (change (256 ^ N.of_nat 2) with 65536; lia). cbn [bind].
+    destruct (N.leb_spec n 255); [lia|reflexivity]. }
+  destruct (N.ltb_spec n 4294967296) as [H4|H4].
+  { exists (be_bytes 4 n). split; [reflexivity|]. split; [lia|]. split; [apply be_bytes_wf|].
+    intros rest. unfold read_len. change (26 <? 24) with false. change (26 =? 24) with false. change (26 =? 25) with false.
+    change (26 =? 26) with true. cbv iota.
+    rewrite read_uint_be by (change (256 ^ N.of_nat 4) with 4294967296; lia). cbn [bind].
+    destruct (N.leb_spec n 65535); [lia|reflexivity]. }
+  exists (be_bytes 8 n). split; [reflexivity|]. split; [lia|]. split; [apply be_bytes_wf|].
+  intros rest. unfold read_len. change (27 <? 24) with false. change (27 =? 24) with false. change (27 =? 25) with false.
+  change (27 =? 26) with false. change (27 =? 27) with true. cbv iota.
+  rewrite read_uint_be by (change (256 ^ N.of_nat 8) with (2 ^ 64); lia). cbn [bind].
+  destruct (N.leb_spec n 4294967295); [lia|reflexivity].
+Qed.
+
+Lemma read_len_inv info r n r1 :
+  wf_bytes r = true -> info < 32 ->
+  read_len info r = Ok (n, r1) ->
+  exists ext, r = ext ++ r1 /\ n < 2 ^ 64 /\ info_of n = info /\
+    forall major, write_major major n = (major * 32 + info) :: ext.
+Proof.
+  intros Hwf Hinfo. unfold read_len.
+  destruct (N.ltb_spec info 24) as [H1|H1].
+  { intros H; inversion H; subst. exists []. repeat split; [lia| |].
+    - unfold info_of. destruct (N.ltb_spec n 24); [reflexivity|lia].
+    - intros major. unfold write_major. destruct (N.ltb_spec n 24); [reflexivity|lia]. }
+  assert (Hgen : forall k lo,
+     (k = 1 \/ k = 2 \/ k = 4 \/ k = 8)%nat ->
+     bind (read_uint k r) (fun '(v, r0) => if v <=? lo then Err ENonCanonInt else Ok (v, r0)) = Ok (n, r1) ->
+     exists ext, r = ext ++ r1 /\ length ext = k /\ n = from_be ext /\ lo < n /\ n < 256 ^ N.of_nat k /\ wf_bytes ext = true).
+  { intros k lo Hk H. apply bind_ok in H as ((v & r0) & Hr & H).
+    destruct (N.leb_spec v lo); [discriminate|]. inversion H; subst.
+    apply read_uint_ok in Hr as (ext & -> & Hl & ->).
+    apply wf_bytes_app_iff in Hwf as [Hwe _].
+    exists ext. repeat split; auto. rewrite <- Hl. apply from_be_bound; auto. }
+  destruct (N.eqb_spec info 24) as [->|N24].
+  { intros H. apply (Hgen 1%nat 23) in H as (ext & -> & Hl & -> & Hlo & Hhi & Hwe); [|auto].
+    exists ext. cbn in Hhi. repeat split; [lia| |].
+    - unfold info_of. destruct (N.ltb_spec (from_be ext) 24); [lia|]. destruct (N.ltb_spec (from_be ext) 256); [reflexivity|lia].
+    - intros major. unfold write_major.
+      destruct (N.ltb_spec (from_be ext) 24); [lia|]. destruct (N.ltb_spec (from_be ext) 256); [|lia].
+      destruct ext as [|x [|]]; try discriminate. unfold from_be; cbn. rewrite N.add_0_r. reflexivity. }
+  destruct (N.eqb_spec info 25) as [->|N25].
+  { intros H. apply (Hgen 2%nat 255) in H as (ext & -> & Hl & -> & Hlo & Hhi & Hwe); [|auto].
+    exists ext. cbn in Hhi. repeat split; [lia| |].
+    - unfold info_of. destruct (N.ltb_spec (from_be ext) 24); [lia|]. destruct (N.ltb_spec (from_be ext) 256); [lia|].
+      destruct (N.ltb_spec (from_be ext) 65536); [reflexivity|lia].
+    - intros major. unfold write_major.
+      destruct (N.ltb_spec (from_be ext) 24); [lia|]. destruct (N.ltb_spec (from_be ext) 256); [lia|].
+      destruct (N.ltb_spec (from_be ext) 65536); [|lia].
+      rewrite <- Hl, be_bytes_from_be; auto. }
+  destruct (N.eqb_spec info 26) as [->|N26].
+  { intros H. apply (Hgen 4%nat 65535) in H as (ext & -> & Hl & -> & Hlo & Hhi & Hwe); [|auto].
+    exists ext. cbn in Hhi. repeat split; [lia| |].
+    - unfold info_of. destruct (N.ltb_spec (from_be ext) 24); [lia|]. destruct (N.ltb_spec (from_be ext) 256); [lia|].
+      destruct (N.ltb_spec (from_be ext) 65536); [lia|]. destruct (N.ltb_spec (from_be ext) 4294967296); [reflexivity|lia].
+    - intros major. unfold write_major.
+      destruct (N.ltb_spec (from_be ext) 24); [lia|]. destruct (N.ltb_spec (from_be ext) 256); [lia|].
+      destruct (N.ltb_spec (from_be ext) 65536); [lia|]. destruct (N.ltb_spec (from_be ext) 4294967296); [|lia].
+      rewrite <- Hl, be_bytes_from_be; auto. }
+  destruct (N.eqb_spec info 27) as [->|N27].
+  { intros H. apply (Hgen 8%nat 4294967295) in H as (ext & -> & Hl & -> & Hlo & Hhi & Hwe); [|auto].
+    exists ext. cbn in Hhi. repeat split; [lia| |].
+    - unfold info_of. destruct (N.ltb_spec (from_be ext) 24); [lia|]. destruct (N.ltb_spec (from_be ext) 256); [lia|].
+      destruct (N.ltb_spec (from_be ext) 65536); [lia|]. destruct (N.ltb_spec (from_be ext) 4294967296); [lia|reflexivity].
+    - intros major. unfold write_major.
+      destruct (N.ltb_spec (from_be ext) 24); [lia|]. destruct (N.ltb_spec (from_be ext) 256); [lia|].
+      destruct (N.ltb_spec (from_be ext) 65536); [lia|]. destruct (N.ltb_spec (from_be ext) 4294967296); [lia|].
+      rewrite <- Hl, be_bytes_from_be; auto. }
+  destruct (N.eqb_spec info 31); discriminate.
+Qed.
+
+(* ================================================================== value induction, sorting, loops (canonical direction) *)
+Section ValueInd.
+  Variable P : value -> Prop.
+  Hypothesis HB : forall b, P (VBool b).
+  Hypothesis HN : P VNull.
+  Hypothesis HI : forall z, P (VInt z).
+  Hypothesis HF : forall b, P (VFloat b).
+  Hypothesis HT : forall s, P (VText s).
+  Hypothesis HY : forall s, P (VBytes s).
+  Hypothesis HA : forall l, Forall P l -> P (VArray l).
+  Hypothesis HM : forall es, Forall (fun kv => P (fst kv) /\ P (snd kv)) es -> P (VMap es).
+  Hypothesis HG : forall t v, P v -> P (VTag t v).
+  Fixpoint value_ind' (v : value) : P v :=
+    match v with
+    | VBool b => HB b | VNull => HN | VInt z => HI z | VFloat b => HF b
+    | VText s => HT s | VBytes s => HY s
+    | VArray l =>
+        HA l ((fix go (l : list value) : Forall P l :=
+                 match l with
+                 | [] => Forall_nil _
+                 | x :: r => Forall_cons _ (value_ind' x) (go r)
+                 end) l)
+    | VMap es =>
+        HM es ((fix go (es : list (value * value)) : Forall (fun kv => P (fst kv) /\ P (snd kv)) es :=
+                  match es with
+                  | [] => Forall_nil _
+                  | kv :: r => Forall_cons _ (conj (value_ind' (fst kv)) (value_ind' (snd kv))) (go r)
+                  end) es)
+    | VTag t v => HG t v (value_ind' v)
+    end.
+End ValueInd.
+
+(* ------------------------------------------------------------------ head byte *)
+Lemma head_split b0 : b0 = (b0 / 32) * 32 + b0 mod 32.
+Proof. rewrite N.mul_comm. apply N.div_mod. lia. Qed.
+
+Lemma head_major_lt b0 : b0 < 256 -> b0 / 32 < 8.
+Proof. intros H. apply N.div_lt_upper_bound; lia. Qed.
+
+Lemma head_info_lt b0 : b0 mod 32 < 32.
+Proof. apply N.mod_lt. lia. Qed.
+
+Lemma head_div major info : info < 32 -> (major * 32 + info) / 32 = major.
+Proof. intros H. rewrite N.add_comm, N.div_add by lia. rewrite N.div_small; auto. Qed.
+Lemma head_mod major info : info < 32 -> (major * 32 + info) mod 32 = info.
+Proof. intros H. rewrite N.add_comm, N.mod_add by lia. apply N.mod_small; auto. Qed.
+
+(* ------------------------------------------------------------------ sorting *)
+Fixpoint chain (prev : option bytes) (ks : list bytes) : Prop :=
+  match ks with
+  | [] => True
+  | k :: r => match prev with None => True | Some p => bytes_cmp p k = Lt end /\ chain (Some k) r
+  end.
+
+Lemma bytes_cmp_antisym a b : bytes_cmp b a = CompOpp (bytes_cmp a b).
+Proof. apply (ol_antisym _ bytes_order). Qed.
+
+Lemma bytes_cmp_gt_lt a b : bytes_cmp a b = Gt -> bytes_cmp b a = Lt.
+Proof. intros H. rewrite bytes_cmp_antisym, H. reflexivity. Qed.
+Lemma bytes_cmp_lt_gt a b : bytes_cmp a b = Lt -> bytes_cmp b a = Gt.
+Proof. intros H. rewrite bytes_cmp_antisym, H. reflexivity. Qed.
+
+Lemma sort_by_chain {A} (l : list (bytes * A)) prev :
+  chain prev (map fst l) -> sort_by l = l.
+Proof.
+  revert prev; induction l as [|x l IH]; intros prev H; [reflexivity|].
+  cbn [map chain] in H. destruct H as [_ H].
+  unfold sort_by in *. cbn [fold_right]. rewrite (IH _ H).
+  destruct l as [|y l]; [reflexivity|].
+  cbn [map chain] in H. destruct H as [H _]. cbn [insert_by]. rewrite H. reflexivity.
+Qed.
+
+Lemma adjacent_dup_chain {A} (l : list (bytes * A)) prev :
+  chain prev (map fst l) -> adjacent_dup l = false.
+Proof.
+  revert prev; induction l as [|x l IH]; intros prev H; [reflexivity|].
+  cbn [map chain] in H. destruct H as [_ H].
+  destruct l as [|y l]; [reflexivity|].
+  cbn [adjacent_dup]. pose proof H as H'. cbn [map chain] in H'. destruct H' as [H' _]. rewrite H'.
+  apply (IH _ H).
+Qed.
+
+(* ------------------------------------------------------------------ canonical direction *)
+
+Definition canon_spec (d : bytes -> result (value * bytes)) : Prop :=
+  forall b v rest, wf_bytes b = true -> d b = Ok (v, rest) ->
+    exists pre, b = pre ++ rest /\ enc v = Ok pre.
+
+Lemma dec_seq_canonical d (Hd : canon_spec d) :
+  forall k n b vs rest, wf_bytes b = true -> dec_seq d k n b = Ok (vs, rest) ->
+    exists pre, b = pre ++ rest /\ concat_results (map enc vs) = Ok pre /\ lenN vs = n.
+Proof.
+  induction k as [|k IH]; intros n b vs rest Hwf H; cbn [dec_seq] in H.
+  - destruct (N.eqb_spec n 0) as [->|Hn0]; [|discriminate]. inversion H; subst.
+    exists []. auto.
+  - destruct (N.eqb_spec n 0) as [->|Hn0].
+    + inversion H; subst. exists []. auto.
+    + apply bind_ok in H as ((v & b1) & Hv & H). apply bind_ok in H as ((vs' & b2) & Hs & H).
+      inversion H; subst.
+      destruct (Hd _ _ _ Hwf Hv) as (p1 & -> & E1).
+      apply wf_bytes_app_iff in Hwf as [_ Hwf1].
+      destruct (IH _ _ _ _ Hwf1 Hs) as (p2 & -> & E2 & L2).
+      exists (p1 ++ p2). split; [rewrite app_assoc; reflexivity|]. split.
+      * cbn [map concat_results]. rewrite E1, E2. reflexivity.
+      * unfold lenN in *. cbn [length]. lia.
+Qed.
+
+Lemma firstn_app_exact {A} (a b : list A) : firstn (length (a ++ b) - length b) (a ++ b) = a.
+Proof.
+  rewrite app_length. replace (length a + length b - length b)%nat with (length a) by lia.
+  rewrite firstn_app, Nat.sub_diag, firstn_all. cbn. apply app_nil_r.
+Qed.
+
+Lemma dec_map_canonical d (Hd : canon_spec d) :
+  forall k n last b es rest, wf_bytes b = true -> dec_map d k n last b = Ok (es, rest) ->
+    exists kvs : list (bytes * bytes),
+      b = concat (map (fun kv => fst kv ++ snd kv) kvs) ++ rest /\
+      map (fun kv => (enc (fst kv), enc (snd kv))) es = map (fun kv => (Ok (fst kv), Ok (snd kv))) kvs /\
+      lenN es = n /\ chain last (map fst kvs).
+Proof.
+  induction k as [|k IH]; intros n last b es rest Hwf H; cbn [dec_map] in H.
+  - destruct (N.eqb_spec n 0) as [->|Hn0]; [|discriminate]. inversion H; subst.
+    exists []. cbn. auto.
+  - destruct (N.eqb_spec n 0) as [->|Hn0].
+    + inversion H; subst. exists []. cbn. auto.
+    + apply bind_ok in H as ((kv & b1) & Hk & H).
+      apply bind_ok in H as ([] & Hord & H).
+      apply bind_ok in H as ((vv & b2) & Hv & H).
+      apply bind_ok in H as ((es' & b3) & Hs & H).
+      inversion H; subst.
+      destruct (Hd _ _ _ Hwf Hk) as (pk & -> & Ek).
+      apply wf_bytes_app_iff in Hwf as [_ Hwf1].
+      destruct (Hd _ _ _ Hwf1 Hv) as (pv & -> & Ev).
+      apply wf_bytes_app_iff in Hwf1 as [_ Hwf2].
+      rewrite firstn_app_exact in Hs, Hord.
+      destruct (IH _ _ _ _ _ Hwf2 Hs) as (kvs & -> & Em & L & C).
+      exists ((pk, pv) :: kvs). split; [|split; [|split]].
+      * cbn [map concat fst snd]. rewrite <- !app_assoc. reflexivity.
+      * cbn [map fst snd]. rewrite Ek, Ev, Em. reflexivity.
+      * unfold lenN in *. cbn [length]. lia.
+      * cbn [map chain fst]. split; auto.
+        destruct last as [prev|]; auto.
+        destruct (bytes_cmp pk prev) eqn:E; try discriminate. apply bytes_cmp_gt_lt; auto.
+Qed.
+
+Lemma seq_keys_oks (kvs : list (bytes * bytes)) :
+  seq_keys (map (fun kv => (@Ok bytes (fst kv), @Ok bytes (snd kv))) kvs) =
+  Ok (map (fun kv => (fst kv, @Ok bytes (snd kv))) kvs).
+Proof.
+  induction kvs as [|x l IH]; [reflexivity|]. cbn [map seq_keys bind]. rewrite IH. reflexivity.
+Qed.
+
+Lemma concat_entries_oks (kvs : list (bytes * bytes)) :
+  concat_results (map (fun kv : bytes * result bytes => bind (snd kv) (fun vb => Ok (fst kv ++ vb)))
+                    (map (fun kv => (fst kv, @Ok bytes (snd kv))) kvs)) =
+  Ok (concat (map (fun kv => fst kv ++ snd kv) kvs)).
+Proof.
+  induction kvs as [|x l IH]; [reflexivity|]. cbn [map concat_results bind concat fst snd]. rewrite IH. reflexivity.
+Qed.
+
+Lemma finish_map_sorted (kvs : list (bytes * bytes)) :
+  chain None (map fst kvs) ->
+  finish_map (map (fun kv => (@Ok bytes (fst kv), @Ok bytes (snd kv))) kvs) =
+  Ok (write_major 5 (lenN kvs) ++ concat (map (fun kv => fst kv ++ snd kv) kvs)).
+Proof.
+  intros C. unfold finish_map. rewrite seq_keys_oks. cbn [bind].
+  assert (C' : chain None (map fst (map (fun kv : bytes * bytes => (fst kv, @Ok bytes (snd kv))) kvs))).
+  { rewrite map_map. cbn [fst]. exact C. }
+  rewrite (sort_by_chain _ _ C'), (adjacent_dup_chain _ _ C').
+  rewrite concat_entries_oks. cbn [bind]. unfold lenN. rewrite map_length. reflexivity.
+Qed.
+
+(* ================================================================== canonical direction *)
+Lemma ext_of_value ext k x : wf_bytes ext = true -> length ext = k -> from_be ext = x -> ext = be_bytes k x.
+Proof. intros Hwf <- <-. symmetry. apply be_bytes_from_be; auto. Qed.
+
+Lemma dec_float16_canonical r v rest :
+  wf_bytes r = true -> dec_float16 r = Ok (v, rest) ->
+  exists ext, r = ext ++ rest /\ enc v = Ok (0xf9 :: ext).
+Proof.
+  intros Hwf H. unfold dec_float16 in H. apply bind_ok in H as ((h & r1) & Hr & H).
+  apply read_uint_ok in Hr as (ext & -> & Hl & ->).
+  apply wf_bytes_app_iff in Hwf as [Hwe _].
+  assert (Hh : from_be ext < 65536).
+  { pose proof (from_be_bound ext Hwe) as B. rewrite Hl in B. exact B. }
+  set (h := from_be ext) in *.
+  destruct (f64_is_nan (widen16 h) && negb (h =? 0x7e00)) eqn:Enan; [discriminate|].
+  destruct (f64_to_int (widen16 h)) eqn:Ei; [discriminate|]. inversion H; subst v r1. clear H.
+  exists ext. split; [reflexivity|]. cbn [enc]. f_equal. unfold enc_float.
+  destruct (f64_is_nan (widen16 h)) eqn:En.
+  - cbn [andb] in Enan. apply negb_false_iff, N.eqb_eq in Enan.
+    rewrite (ext_of_value ext 2%nat 0x7e00 Hwe Hl Enan). reflexivity.
+  - destruct (f64_is_inf (widen16 h)) eqn:Einf.
+    + destruct (widen16_inf h Hh Einf) as [[E1 E2]|[E1 E2]]; rewrite E2;
+        rewrite (ext_of_value ext 2%nat _ Hwe Hl E1); reflexivity.
+    + rewrite Ei. rewrite (widen16_nonnan_narrow h Hh En).
+      f_equal. symmetry. apply ext_of_value; auto.
+Qed.
+
+Lemma dec_float32_canonical r v rest :
+  wf_bytes r = true -> dec_float32 r = Ok (v, rest) ->
+  exists ext, r = ext ++ rest /\ enc v = Ok (0xfa :: ext).
+Proof.
+  intros Hwf H. unfold dec_float32 in H. apply bind_ok in H as ((s & r1) & Hr & H).
+  apply read_uint_ok in Hr as (ext & -> & Hl & ->).
+  apply wf_bytes_app_iff in Hwf as [Hwe _].
+  assert (Hs : from_be ext < 4294967296).
+  { pose proof (from_be_bound ext Hwe) as B. rewrite Hl in B. exact B. }
+  set (s := from_be ext) in *.
+  destruct (f64_to_int (widen32 s)) eqn:Ei; [discriminate|].
+  destruct (f64_is_nan (widen32 s)) eqn:En; [discriminate|].
+  destruct (narrow16 (widen32 s)) eqn:E16; [discriminate|].
+  inversion H; subst v r1. clear H.
+  exists ext. split; [reflexivity|]. cbn [enc]. f_equal. unfold enc_float. rewrite En.
+  destruct (f64_is_inf (widen32 s)) eqn:Einf.
+  { exfalso. apply (inf_narrow16 _ Einf). exact E16. }
+  rewrite Ei, E16. rewrite (narrow32_widen32 s Hs En). f_equal. symmetry. apply ext_of_value; auto.
+Qed.
+
+Lemma dec_float64_canonical r v rest :
+  wf_bytes r = true -> dec_float64 r = Ok (v, rest) ->
+  exists ext, r = ext ++ rest /\ enc v = Ok (0xfb :: ext).
+Proof.
+  intros Hwf H. unfold dec_float64 in H. apply bind_ok in H as ((f & r1) & Hr & H).
+  apply read_uint_ok in Hr as (ext & -> & Hl & ->).
+  apply wf_bytes_app_iff in Hwf as [Hwe _].
+  set (f := from_be ext) in *.
+  destruct (f64_to_int f) eqn:Ei; [discriminate|].
+  destruct (f64_is_nan f) eqn:En; [discriminate|].
+  destruct (narrow16 f) eqn:E16; [discriminate|].
+  destruct (narrow32 f) eqn:E32; [discriminate|].
+  inversion H; subst v r1. clear H.
+  exists ext. split; [reflexivity|]. cbn [enc]. f_equal. unfold enc_float. rewrite En.
+  destruct (f64_is_inf f) eqn:Einf.
+  { exfalso. apply (inf_narrow16 _ Einf). exact E16. }
+  rewrite Ei, E16, E32. f_equal. symmetry. apply ext_of_value; auto.
+Qed.
+
+Lemma lenN_firstn (n : N) (l : bytes) : n <= lenN l -> lenN (firstn (N.to_nat n) l) = n.
+Proof. unfold lenN. intros H. rewrite firstn_length_le by lia. lia. Qed.
+
+Lemma dec_value_canonical : forall fuel, canon_spec (dec_value fuel).
+Proof.
+  induction fuel as [|f IH]; intros b v rest Hwf H; [discriminate|].
+  cbn [dec_value] in H. destruct b as [|b0 r]; [discriminate|].
+  apply wf_bytes_cons in Hwf as [Hb0 Hwr].
+  pose proof (head_split b0) as Hsplit. pose proof (head_major_lt b0 Hb0) as Hmaj.
+  pose proof (head_info_lt b0) as Hinfo.
+  set (major := b0 / 32) in *. set (info := b0 mod 32) in *.
+  destruct (N.eqb_spec major 0) as [M0|M0].
+  { apply bind_ok in H as ((n & r1) & Hr & H). inversion H; subst v rest. clear H.
+    destruct (read_len_inv _ _ _ _ Hwr Hinfo Hr) as (ext & -> & Hn64 & _ & Hw).
+    exists (b0 :: ext). split; [reflexivity|]. cbn [enc]. f_equal. unfold enc_int.
+    destruct (Z.leb_spec 0 (Z.of_N n)); [|lia]. rewrite N2Z.id, Hw. f_equal. lia. }
+  destruct (N.eqb_spec major 1) as [M1|M1].
+  { apply bind_ok in H as ((n & r1) & Hr & H).
+    assert (HH : v = VInt (-1 - Z.of_N n) /\ rest = r1) by (split; congruence). destruct HH as [-> ->]. clear H.
+    destruct (read_len_inv _ _ _ _ Hwr Hinfo Hr) as (ext & -> & Hn64 & _ & Hw).
+    exists (b0 :: ext). split; [reflexivity|]. cbn [enc]. f_equal. unfold enc_int.
+    destruct (Z.leb_spec 0 (-1 - Z.of_N n)); [lia|].
+    replace (-1 - (-1 - Z.of_N n))%Z with (Z.of_N n) by lia. rewrite N2Z.id, Hw. f_equal. lia. }
+  destruct ((major =? 2) || (major =? 3)) eqn:M23.
+  { apply bind_ok in H as ((n & r1) & Hr & H).
+    destruct (N.ltb_spec (lenN r1) n) as [|Hle]; [discriminate|].
+    destruct (read_len_inv _ _ _ _ Hwr Hinfo Hr) as (ext & -> & Hn64 & _ & Hw).
+    apply wf_bytes_app_iff in Hwr as [_ Hw1].
+    assert (Hsplit1 : r1 = firstn (N.to_nat n) r1 ++ skipn (N.to_nat n) r1) by (symmetry; apply firstn_skipn).
+    destruct (N.eqb_spec major 2) as [M2|M2].
+    - inversion H; subst v rest. clear H.
+      exists (b0 :: ext ++ firstn (N.to_nat n) r1). split.
+      + cbn [app]. f_equal. rewrite <- app_assoc. f_equal. exact Hsplit1.
+      + cbn [enc]. rewrite lenN_firstn by auto. rewrite Hw. cbn [app]. do 2 f_equal. lia.
+    - destruct (utf8_valid (firstn (N.to_nat n) r1)); [|discriminate].
+      inversion H; subst v rest. clear H.
+      assert (M3 : major = 3).
+      { apply orb_true_iff in M23 as [E|E]; [discriminate|apply N.eqb_eq in E; exact E]. }
+      exists (b0 :: ext ++ firstn (N.to_nat n) r1). split.
+      + cbn [app]. f_equal. rewrite <- app_assoc. f_equal. exact Hsplit1.
+      + cbn [enc]. rewrite lenN_firstn by auto. rewrite Hw. cbn [app]. do 2 f_equal. lia. }
+  destruct (N.eqb_spec major 4) as [M4|M4].
+  { apply bind_ok in H as ((n & r1) & Hr & H). apply bind_ok in H as ((items & r2) & Hs & H).
+    inversion H; subst v rest. clear H.
+    destruct (read_len_inv _ _ _ _ Hwr Hinfo Hr) as (ext & -> & Hn64 & _ & Hw).
+    apply wf_bytes_app_iff in Hwr as [_ Hw1].
+    destruct (dec_seq_canonical _ IH _ _ _ _ _ Hw1 Hs) as (body & -> & Eb & Ln).
+    exists (b0 :: ext ++ body). split; [cbn [app]; rewrite <- app_assoc; reflexivity|].
+    cbn [enc]. rewrite Eb. cbn [bind]. rewrite Ln, Hw. cbn [app]. do 2 f_equal. lia. }
+  destruct (N.eqb_spec major 5) as [M5|M5].
+  { apply bind_ok in H as ((n & r1) & Hr & H). apply bind_ok in H as ((es & r2) & Hs & H).
+    inversion H; subst v rest. clear H.
+    destruct (read_len_inv _ _ _ _ Hwr Hinfo Hr) as (ext & -> & Hn64 & _ & Hw).
+    apply wf_bytes_app_iff in Hwr as [_ Hw1].
+    destruct (dec_map_canonical _ IH _ _ _ _ _ _ Hw1 Hs) as (kvs & -> & Em & Ln & C).
+    exists (b0 :: ext ++ concat (map (fun kv => fst kv ++ snd kv) kvs)).
+    split; [cbn [app]; rewrite <- app_assoc; reflexivity|].
+    cbn [enc]. rewrite Em. rewrite (finish_map_sorted _ C).
+    assert (lenN kvs = n).
+    { rewrite <- Ln. unfold lenN. f_equal. apply (f_equal (@length _)) in Em. rewrite !map_length in Em. auto. }
+    rewrite H, Hw. cbn [app]. do 2 f_equal. lia. }
+  destruct (N.eqb_spec major 6) as [M6|M6]; [discriminate|].
+  apply orb_false_iff in M23 as [M2 M3]. apply N.eqb_neq in M2, M3.
+  assert (M7 : major = 7) by lia.
+  assert (Hb : b0 = 224 + info) by lia.
+  destruct (N.eqb_spec info 20) as [I|I].
+  { inversion H; subst v rest. exists [b0]. split; [reflexivity|]. cbn [enc]. do 2 f_equal. lia. }
+  destruct (N.eqb_spec info 21) as [I1|I1].
+  { inversion H; subst v rest. exists [b0]. split; [reflexivity|]. cbn [enc]. do 2 f_equal. lia. }
+  destruct (N.eqb_spec info 22) as [I2|I2].
+  { inversion H; subst v rest. exists [b0]. split; [reflexivity|]. cbn [enc]. do 2 f_equal. lia. }
+  destruct (N.eqb_spec info 25) as [I5|I5].
+  { destruct (dec_float16_canonical _ _ _ Hwr H) as (ext & -> & E). exists (b0 :: ext).
+    split; [reflexivity|]. rewrite E. do 2 f_equal. lia. }
+  destruct (N.eqb_spec info 26) as [I6|I6].
+  { destruct (dec_float32_canonical _ _ _ Hwr H) as (ext & -> & E). exists (b0 :: ext).
+    split; [reflexivity|]. rewrite E. do 2 f_equal. lia. }
+  destruct (N.eqb_spec info 27) as [I7|I7].
+  { destruct (dec_float64_canonical _ _ _ Hwr H) as (ext & -> & E). exists (b0 :: ext).
+    split; [reflexivity|]. rewrite E. do 2 f_equal. lia. }
+  destruct (N.eqb_spec info 31); discriminate.
+Qed.
+
+Theorem cbor_canonical_core b v :
+  wf_bytes b = true -> decode b = Ok v -> enc v = Ok b.
+Proof.
+  intros Hwf H. unfold decode in H.
+  destruct (dec_value (S (length b)) b) as [[v' rest]|e] eqn:E; [|discriminate].
+  destruct rest as [|x rest]; [|discriminate]. inversion H; subst v'.
+  destruct (dec_value_canonical _ _ _ _ Hwf E) as (pre & -> & Ee). rewrite app_nil_r. exact Ee.
+Qed.
+
+(* ================================================================== insertion sort facts, well-formedness *)
+(* ------------------------------------------------------------------ insertion sort facts *)
+Fixpoint lsorted {A} (l : list (bytes * A)) : Prop :=
+  match l with
+  | x :: ((y :: _) as r) => bytes_cmp (fst x) (fst y) <> Gt /\ lsorted r
+  | _ => True
+  end.
+
+Lemma insert_by_lsorted {A} (x : bytes * A) l : lsorted l -> lsorted (insert_by x l).
+Proof.
+  induction l as [|y r IH]; intros H; [exact I|].
+  cbn [insert_by]. destruct (bytes_cmp (fst x) (fst y)) eqn:E.
+  - destruct r as [|z r'].
+    + cbn. split; auto. rewrite bytes_cmp_antisym, E. discriminate.
+    + destruct H as [Hyz Hr]. specialize (IH Hr). cbn [insert_by] in *.
+      destruct (bytes_cmp (fst x) (fst z)) eqn:E2.
+      * split; auto.
+      * split; [rewrite bytes_cmp_antisym, E; discriminate|]. exact IH.
+      * split; auto.
+  - cbn [lsorted]. split; [rewrite E; discriminate|exact H].
+  - destruct r as [|z r'].
+    + cbn. split; auto. rewrite bytes_cmp_antisym, E. discriminate.
+    + destruct H as [Hyz Hr]. specialize (IH Hr). cbn [insert_by] in *.
+      destruct (bytes_cmp (fst x) (fst z)) eqn:E2.
+      * split; auto.
+      * split; [rewrite bytes_cmp_antisym, E; discriminate|]. exact IH.
+      * split; auto.
+Qed.
+
+Lemma sort_by_lsorted {A} (l : list (bytes * A)) : lsorted (sort_by l).
+Proof.
+  induction l as [|x l IH]; [exact I|]. unfold sort_by in *. cbn [fold_right]. apply insert_by_lsorted, IH.
+Qed.
+
+Lemma insert_by_in {A} (x y : bytes * A) l : In x (insert_by y l) -> x = y \/ In x l.
+Proof.
+  induction l as [|z r IH]; cbn [insert_by]; intros H.
+  - destruct H as [<-|[]]. auto.
+  - destruct (bytes_cmp (fst y) (fst z)).
+    + destruct H as [<-|H]; [right; left; auto|]. destruct (IH H); auto. right; right; auto.
+    + destruct H as [<-|H]; auto.
+    + destruct H as [<-|H]; [right; left; auto|]. destruct (IH H); auto. right; right; auto.
+Qed.
+
+Lemma sort_by_in {A} (x : bytes * A) l : In x (sort_by l) -> In x l.
+Proof.
+  induction l as [|y l IH]; [auto|]. unfold sort_by in *. cbn [fold_right]. intros H.
+  apply insert_by_in in H as [->|H]; [left; auto|right; auto].
+Qed.
+
+Lemma insert_by_length {A} (x : bytes * A) l : length (insert_by x l) = S (length l).
+Proof.
+  induction l as [|y r IH]; [reflexivity|]. cbn [insert_by]. destruct (bytes_cmp (fst x) (fst y)); cbn [length]; rewrite ?IH; reflexivity.
+Qed.
+Lemma sort_by_length {A} (l : list (bytes * A)) : length (sort_by l) = length l.
+Proof.
+  induction l as [|x l IH]; [reflexivity|]. unfold sort_by in *. cbn [fold_right]. rewrite insert_by_length, IH. reflexivity.
+Qed.
+
+Definition map_payload {A B} (f : A -> B) (l : list (bytes * A)) : list (bytes * B) :=
+  map (fun x => (fst x, f (snd x))) l.
+
+Lemma insert_by_payload {A B} (f : A -> B) x l :
+  insert_by (fst x, f (snd x)) (map_payload f l) = map_payload f (insert_by x l).
+Proof.
+  induction l as [|y r IH]; [reflexivity|]. cbn [map_payload map insert_by fst].
+  destruct (bytes_cmp (fst x) (fst y)); cbn [map]; try reflexivity; f_equal; exact IH.
+Qed.
+
+Lemma sort_by_payload {A B} (f : A -> B) l : sort_by (map_payload f l) = map_payload f (sort_by l).
+Proof.
+  induction l as [|x l IH]; [reflexivity|]. unfold sort_by in *. cbn [map_payload map fold_right].
+  fold (map_payload f l). rewrite IH. apply insert_by_payload.
+Qed.
+
+Lemma adjacent_dup_payload {A B} (f : A -> B) l : adjacent_dup (map_payload f l) = adjacent_dup l.
+Proof.
+  induction l as [|x l IH]; [reflexivity|]. destruct l as [|y l]; [reflexivity|].
+  cbn [map_payload map adjacent_dup fst] in *. destruct (bytes_cmp (fst x) (fst y)); auto.
+Qed.
+
+Lemma lsorted_chain {A} (l : list (bytes * A)) :
+  lsorted l -> adjacent_dup l = false -> forall prev,
+  match l with [] => True | x :: _ => match prev with None => True | Some p => bytes_cmp p (fst x) = Lt end end ->
+  chain prev (map fst l).
+Proof.
+  induction l as [|x l IH]; intros Hs Hd prev Hp; [exact I|].
+  cbn [map chain]. split; [exact Hp|].
+  destruct l as [|y l]; [exact I|].
+  destruct Hs as [Hxy Hs]. cbn [adjacent_dup] in Hd.
+  destruct (bytes_cmp (fst x) (fst y)) eqn:E; try discriminate; try congruence.
+  apply IH; auto.
+Qed.
+
+(* ------------------------------------------------------------------ well-formedness *)
+Definition good (v : value) : bool := wf_value v.
+
+Lemma good_array l : good (VArray l) = true -> lenN l < 2 ^ 64 /\ forallb good l = true.
+Proof.
+  unfold good. cbn [wf_value]. intros H. apply andb_true_iff in H as [HL H]. apply N.ltb_lt in HL. auto.
+Qed.
+
+Lemma good_map es : good (VMap es) = true ->
+  lenN es < 2 ^ 64 /\ forallb (fun kv => good (fst kv) && good (snd kv)) es = true.
+Proof.
+  unfold good. cbn [wf_value]. intros H. apply andb_true_iff in H as [HL H]. apply N.ltb_lt in HL. auto.
+Qed.
+
+Lemma good_int z : good (VInt z) = true -> (- 2 ^ 64 <= z < 2 ^ 64)%Z.
+Proof.
+  unfold good. cbn [wf_value]. intros H. apply andb_true_iff in H as [A B].
+  apply Z.leb_le in A. apply Z.ltb_lt in B. lia.
+Qed.
+
+Lemma good_float b : good (VFloat b) = true -> b < 2 ^ 64.
+Proof. unfold good. cbn [wf_value]. apply N.ltb_lt. Qed.
+
+Lemma good_text s : good (VText s) = true -> wf_bytes s = true /\ utf8_valid s = true /\ lenN s < 2 ^ 64.
+Proof.
+  unfold good. cbn [wf_value]. intros H.
+  apply andb_true_iff in H as [H H3]. apply andb_true_iff in H as [H1 H2]. apply N.ltb_lt in H3. auto.
+Qed.
+
+Lemma good_bytes s : good (VBytes s) = true -> wf_bytes s = true /\ lenN s < 2 ^ 64.
+Proof.
+  unfold good. cbn [wf_value]. intros H. apply andb_true_iff in H as [H1 H3]. apply N.ltb_lt in H3. auto.
+Qed.
+
+(* ================================================================== round-trip direction *)
+Definition rt_spec (v : value) : Prop :=
+  forall pre, enc v = Ok pre -> good v = true ->
+  forall fuel rest, (length pre <= fuel)%nat -> dec_value fuel (pre ++ rest) = Ok (norm v, rest).
+
+Lemma write_major_nonempty major n : (1 <= length (write_major major n))%nat.
+Proof.
+  unfold write_major. repeat match goal with |- context [if ?c then _ else _] => destruct c end; cbn [length]; lia.
+Qed.
+
+Lemma enc_float_nonempty b : (1 <= length (enc_float b))%nat.
+Proof.
+  unfold enc_float, enc_int.
+  repeat match goal with
+         | |- context [if ?c then _ else _] => destruct c
+         | |- context [match ?c with Some _ => _ | None => _ end] => destruct c
+         end; try apply write_major_nonempty; cbn [length]; lia.
+Qed.
+
+Lemma enc_nonempty v pre : enc v = Ok pre -> (1 <= length pre)%nat.
+Proof.
+  destruct v; cbn [enc]; intros H.
+  - inversion H; cbn; lia.
+  - inversion H; cbn; lia.
+  - inversion H. unfold enc_int. destruct (0 <=? z)%Z; apply write_major_nonempty.
+  - inversion H. apply enc_float_nonempty.
+  - inversion H. rewrite app_length. pose proof (write_major_nonempty 3 (lenN s)). lia.
+  - inversion H. rewrite app_length. pose proof (write_major_nonempty 2 (lenN s)). lia.
+  - apply bind_ok in H as (body & _ & H). inversion H. rewrite app_length.
+    pose proof (write_major_nonempty 4 (lenN l)). lia.
+  - unfold finish_map in H. apply bind_ok in H as (kvs & _ & H).
+    destruct (adjacent_dup (sort_by kvs)); [discriminate|].
+    apply bind_ok in H as (body & _ & H). inversion H. rewrite app_length.
+    match goal with |- context [write_major 5 ?n] => pose proof (write_major_nonempty 5 n) end. lia.
+  - discriminate.
+Qed.
+
+(* decoding a minimal head *)
+Lemma dec_head major n ext :
+  n < 2 ^ 64 -> write_major major n = (major * 32 + info_of n) :: ext ->
+  forall rest, read_len (info_of n) (ext ++ rest) = Ok (n, rest) ->
+  True.
+Proof. auto. Qed.
+
+Lemma enc_int_dec z f rest :
+  (- 2 ^ 64 <= z < 2 ^ 64)%Z ->
+  dec_value (S f) (enc_int z ++ rest) = Ok (VInt z, rest).
+Proof.
+  intros Hz. change (2 ^ 64)%Z with 18446744073709551616%Z in Hz.
+  assert (P64 : 2 ^ 64 = 18446744073709551616) by reflexivity.
+  unfold enc_int. destruct (Z.leb_spec 0 z) as [Hp|Hneg].
+  - assert (Hn : Z.to_N z < 2 ^ 64) by (rewrite P64; lia).
+    destruct (write_major_shape 0 (Z.to_N z) Hn) as (ext & -> & Hi & _ & Hr).
+    cbn [app dec_value]. rewrite head_div, head_mod by auto. cbn [N.eqb].
+    rewrite Hr. cbn [bind]. rewrite Z2N.id by lia. reflexivity.
+  - assert (Hn : Z.to_N (-1 - z) < 2 ^ 64) by (rewrite P64; lia).
+    destruct (write_major_shape 1 (Z.to_N (-1 - z)) Hn) as (ext & -> & Hi & _ & Hr).
+    cbn [app dec_value]. rewrite head_div, head_mod by auto. cbn [N.eqb Pos.eqb].
+    rewrite Hr. cbn [bind].
+    rewrite Z2N.id by lia. replace (-1 - (-1 - z))%Z with z by lia. reflexivity.
+Qed.
+
+Lemma fuel_S (pre : bytes) fuel : (1 <= length pre)%nat -> (length pre <= fuel)%nat -> exists f, fuel = S f /\ (length pre - 1 <= f)%nat.
+Proof. intros H1 H2. destruct fuel as [|f]; [lia|]. exists f. split; auto. lia. Qed.
+
+Lemma rt_float b : rt_spec (VFloat b).
+Proof.
+  intros pre He Hg fuel rest Hf. cbn [enc] in He. inversion He; subst pre; clear He.
+  pose proof (good_float _ Hg) as Hb.
+  destruct (fuel_S _ _ (enc_float_nonempty b) Hf) as (f & -> & _). clear Hf.
+  cbn [norm]. unfold enc_float.
+  destruct (f64_is_nan b) eqn:En.
+  { reflexivity. }
+  destruct (f64_is_inf b) eqn:Einf.
+  { rewrite (inf_bits b Hb Einf) at 2. destruct (fsign 11 52 b =? 0); reflexivity. }
+  destruct (f64_to_int b) as [z|] eqn:Ei.
+  { apply enc_int_dec. apply (f64_to_int_range b); exact Ei. }
+  destruct (narrow16 b) as [h|] eqn:E16.
+  { destruct (narrow16_some b h Hb E16) as [Ew Hh].
+    cbn [app]. change (dec_value (S f) (249 :: be_bytes 2 h ++ rest)) with (dec_float16 (be_bytes 2 h ++ rest)).
+    unfold dec_float16. rewrite read_uint_be by (exact Hh). cbn [bind]. rewrite Ew, En, Ei. reflexivity. }
+  destruct (narrow32 b) as [s|] eqn:E32.
+  { destruct (narrow32_some b s Hb E32) as [Ew Hs].
+    cbn [app]. change (dec_value (S f) (250 :: be_bytes 4 s ++ rest)) with (dec_float32 (be_bytes 4 s ++ rest)).
+    unfold dec_float32. rewrite read_uint_be by (exact Hs). cbn [bind]. rewrite Ew, Ei, En, E16. reflexivity. }
+  cbn [app]. change (dec_value (S f) (251 :: be_bytes 8 b ++ rest)) with (dec_float64 (be_bytes 8 b ++ rest)).
+  unfold dec_float64. rewrite read_uint_be by (exact Hb). cbn [bind]. rewrite Ei, En, E16, E32. reflexivity.
+Qed.
+
+Lemma firstn_lenN_app (s rest : bytes) : firstn (N.to_nat (lenN s)) (s ++ rest) = s.
+Proof. unfold lenN. rewrite Nat2N.id, firstn_app, Nat.sub_diag, firstn_all. cbn. apply app_nil_r. Qed.
+Lemma skipn_lenN_app (s rest : bytes) : skipn (N.to_nat (lenN s)) (s ++ rest) = rest.
+Proof. unfold lenN. rewrite Nat2N.id, skipn_app, Nat.sub_diag, skipn_all. reflexivity. Qed.
+
+Lemma rt_strings (is_text : bool) s :
+  wf_bytes s = true -> lenN s < 2 ^ 64 -> (is_text = true -> utf8_valid s = true) ->
+  forall f rest,
+  dec_value (S f) ((write_major (if is_text then 3 else 2) (lenN s) ++ s) ++ rest) =
+  Ok ((if is_text then VText s else VBytes s), rest).
+Proof.
+  intros Hw Hl Hu f rest.
+  destruct (write_major_shape (if is_text then 3 else 2) (lenN s) Hl) as (ext & -> & Hi & _ & Hr).
+  cbn [app dec_value]. rewrite head_div, head_mod by auto.
+  rewrite <- !app_assoc. rewrite Hr. cbn [bind].
+  destruct (N.ltb_spec (lenN (s ++ rest)) (lenN s)) as [Hbad|_].
+  { unfold lenN in Hbad. rewrite app_length in Hbad. lia. }
+  rewrite firstn_lenN_app, skipn_lenN_app.
+  destruct is_text; cbn [N.eqb Pos.eqb orb].
+  - rewrite Hu; auto.
+  - reflexivity.
+Qed.
+
+Lemma concat_results_length l body :
+  concat_results (map enc l) = Ok body -> (length l <= length body)%nat.
+Proof.
+  revert body; induction l as [|x l IH]; intros body H; cbn [map concat_results] in H.
+  - inversion H. cbn. lia.
+  - apply bind_ok in H as (bx & Ex & H). apply bind_ok in H as (bs & Es & H). inversion H; subst.
+    pose proof (enc_nonempty _ _ Ex). specialize (IH _ Es). rewrite app_length. cbn [length]. lia.
+Qed.
+
+Lemma enc_dec_seq f : forall l body,
+  Forall rt_spec l -> concat_results (map enc l) = Ok body -> forallb good l = true ->
+  forall k rest, (length body <= f)%nat -> (length l <= k)%nat ->
+  dec_seq (dec_value f) k (lenN l) (body ++ rest) = Ok (map norm l, rest).
+Proof.
+  induction l as [|x l IH]; intros body HF He Hg k rest Hf Hk; cbn [map concat_results] in He.
+  - inversion He; subst. destruct k; reflexivity.
+  - apply bind_ok in He as (bx & Ex & He). apply bind_ok in He as (bs & Es & He). inversion He; subst body. clear He.
+    inversion HF as [|? ? Hx HF']; subst. cbn [forallb] in Hg. apply andb_true_iff in Hg as [Hgx Hgl].
+    destruct k as [|k]; [cbn in Hk; lia|]. cbn [dec_seq].
+    destruct (N.eqb_spec (lenN (x :: l)) 0) as [E0|_]; [unfold lenN in E0; cbn in E0; lia|].
+    rewrite app_length in Hf.
+    rewrite <- app_assoc. rewrite (Hx _ Ex Hgx f (bs ++ rest)) by lia. cbn [bind].
+    replace (lenN (x :: l) - 1) with (lenN l) by (unfold lenN; cbn [length]; lia).
+    rewrite (IH _ HF' Es Hgl k rest) by (cbn [length] in Hk; lia). reflexivity.
+Qed.
+
+Lemma rt_array l : Forall rt_spec l -> rt_spec (VArray l).
+Proof.
+  intros HF pre He Hg fuel rest Hf. cbn [enc] in He.
+  apply bind_ok in He as (body & Eb & He). inversion He; subst pre; clear He.
+  destruct (good_array _ Hg) as [Hl Hgl].
+  destruct (write_major_shape 4 (lenN l) Hl) as (ext & Ew & Hi & _ & Hr).
+  rewrite Ew in *. cbn [app length] in Hf. destruct fuel as [|f]; [lia|].
+  cbn [app dec_value]. rewrite head_div, head_mod by auto. cbn [N.eqb Pos.eqb orb].
+  rewrite <- app_assoc, Hr. cbn [bind].
+  rewrite app_length in Hf.
+  rewrite (enc_dec_seq f l body HF Eb Hgl).
+  - reflexivity.
+  - lia.
+  - pose proof (concat_results_length _ _ Eb). rewrite app_length. lia.
+Qed.
+
+(* ---- maps ---- *)
+Definition entry_bytes (kv : bytes * result bytes) : result bytes :=
+  bind (snd kv) (fun vb => Ok (fst kv ++ vb)).
+
+Definition ent_ok (x : bytes * (value * value)) : Prop :=
+  rt_spec (fst (snd x)) /\ rt_spec (snd (snd x)) /\
+  good (fst (snd x)) = true /\ good (snd (snd x)) = true /\ enc (fst (snd x)) = Ok (fst x).
+
+Lemma enc_dec_map f : forall (L : list (bytes * (value * value))) last body,
+  Forall ent_ok L -> chain last (map fst L) ->
+  concat_results (map entry_bytes (map_payload (fun kv => enc (snd kv)) L)) = Ok body ->
+  forall k rest, (length body <= f)%nat -> (length L <= k)%nat ->
+  dec_map (dec_value f) k (lenN L) last (body ++ rest) =
+  Ok (map (fun x => (norm (fst (snd x)), norm (snd (snd x)))) L, rest).
+Proof.
+  induction L as [|x L IH]; intros last body HF Hc He k rest Hf Hk; cbn [map_payload map concat_results] in He.
+  - inversion He; subst. destruct k; reflexivity.
+  - apply bind_ok in He as (bx & Ex & He). apply bind_ok in He as (bs & Es & He). inversion He; subst body. clear He.
+    unfold entry_bytes in Ex. cbn [fst snd] in Ex. apply bind_ok in Ex as (vb & Ev & Ex). inversion Ex; subst bx. clear Ex.
+    inversion HF as [|? ? Hx HF']; subst. destruct Hx as (Rk & Rv & Gk & Gv & Ek).
+    cbn [map chain] in Hc. destruct Hc as [Hprev Hc].
+    destruct k as [|k]; [cbn in Hk; lia|]. cbn [dec_map].
+    destruct (N.eqb_spec (lenN (x :: L)) 0) as [E0|_]; [unfold lenN in E0; cbn in E0; lia|].
+    rewrite !app_length in Hf.
+    rewrite <- !app_assoc.
+    rewrite (Rk _ Ek Gk f (vb ++ bs ++ rest)) by lia. cbn [bind].
+    rewrite firstn_app_exact.
+    assert (Hord : match last with
+                   | None => Ok tt
+                   | Some prev => match bytes_cmp (fst x) prev with
+                                  | Eq => Err EMapKeyDup | Lt => Err EMapKeyOrder | Gt => Ok tt end
+                   end = Ok tt).
+    { destruct last as [prev|]; auto. rewrite (bytes_cmp_lt_gt _ _ Hprev). reflexivity. }
+    rewrite Hord. cbn [bind].
+    rewrite (Rv _ Ev Gv f (bs ++ rest)) by lia. cbn [bind].
+    replace (lenN (x :: L) - 1) with (lenN L) by (unfold lenN; cbn [length]; lia).
+    fold (map_payload (fun kv : value * value => enc (snd kv)) L) in Es.
+    erewrite bind_eq; cycle 1.
+    { apply (IH (Some (fst x)) bs HF' Hc Es k rest); [lia|cbn [length] in Hk; lia]. }
+    reflexivity.
+Qed.
+
+Lemma seq_keys_inv es kvs :
+  seq_keys (map (fun kv => (enc (fst kv), enc (snd kv))) es) = Ok kvs ->
+  kvs = map_payload (fun kv => enc (snd kv)) (map (fun kv => (key_bytes (fst kv), kv)) es) /\
+  Forall (fun kv => enc (fst kv) = Ok (key_bytes (fst kv))) es.
+Proof.
+  revert kvs; induction es as [|kv es IH]; intros kvs H; cbn [map seq_keys] in H.
+  - inversion H. split; [reflexivity|constructor].
+  - apply bind_ok in H as (kb & Ek & H). apply bind_ok in H as (r & Er & H). inversion H; subst kvs. clear H.
+    destruct (IH _ Er) as [-> HF]. split.
+    + cbn [map map_payload fst snd]. unfold key_bytes. rewrite Ek. reflexivity.
+    + constructor; auto. unfold key_bytes. rewrite Ek. reflexivity.
+Qed.
+
+Lemma concat_entries_length (L : list (bytes * (value * value))) body :
+  Forall (fun x => enc (fst (snd x)) = Ok (fst x)) L ->
+  concat_results (map entry_bytes (map_payload (fun kv => enc (snd kv)) L)) = Ok body ->
+  (length L <= length body)%nat.
+Proof.
+  revert body; induction L as [|x L IH]; intros body HF H; cbn [map_payload map concat_results] in H.
+  - inversion H. cbn. lia.
+  - apply bind_ok in H as (bx & Ex & H). apply bind_ok in H as (bs & Es & H). inversion H; subst.
+    inversion HF as [|? ? Hx HF']; subst.
+    unfold entry_bytes in Ex. cbn [fst snd] in Ex. apply bind_ok in Ex as (vb & Ev & Ex). inversion Ex; subst.
+    pose proof (enc_nonempty _ _ Hx). specialize (IH _ HF' Es). rewrite !app_length. cbn [length]. lia.
+Qed.
+
+Lemma rt_map es : Forall (fun kv => rt_spec (fst kv) /\ rt_spec (snd kv)) es -> rt_spec (VMap es).
+Proof.
+  intros HF pre He Hg fuel rest Hf. cbn [enc] in He. unfold finish_map in He.
+  apply bind_ok in He as (kvs & Ek & He).
+  destruct (seq_keys_inv _ _ Ek) as [-> HK]. clear Ek.
+  set (L0 := map (fun kv : value * value => (key_bytes (fst kv), kv)) es) in *.
+  rewrite sort_by_payload in He. rewrite adjacent_dup_payload in He.
+  destruct (adjacent_dup (sort_by L0)) eqn:Edup; [discriminate|].
+  apply bind_ok in He as (body & Eb & He). inversion He; subst pre; clear He.
+  destruct (good_map _ Hg) as [Hl Hgl].
+  set (L := sort_by L0) in *.
+  assert (HL : Forall ent_ok L).
+  { apply Forall_forall. intros x Hx. apply sort_by_in in Hx. unfold L0 in Hx.
+    apply in_map_iff in Hx as (kv & <- & Hin). cbn [fst snd].
+    rewrite Forall_forall in HF, HK. destruct (HF _ Hin) as [Rk Rv]. 
+    rewrite forallb_forall in Hgl. specialize (Hgl _ Hin). apply andb_true_iff in Hgl as [Gk Gv].
+    unfold ent_ok; cbn [fst snd]. refine (conj Rk (conj Rv (conj Gk (conj Gv _)))). apply HK; auto. }
+  assert (HC : chain None (map fst L)).
+  { apply lsorted_chain; auto. apply sort_by_lsorted. destruct L; exact I. }
+  assert (Hlen : lenN (map (fun kv : value * value => (enc (fst kv), enc (snd kv))) es) = lenN L).
+  { unfold lenN, L, L0. rewrite sort_by_length, !map_length. reflexivity. }
+  rewrite Hlen in *.
+  assert (HlL : lenN L < 2 ^ 64).
+  { unfold lenN, L, L0 in *. rewrite sort_by_length, map_length. exact Hl. }
+  destruct (write_major_shape 5 (lenN L) HlL) as (ext & Ew & Hi & _ & Hr).
+  rewrite Ew in *. cbn [app length] in Hf. destruct fuel as [|f]; [lia|].
+  cbn [app dec_value]. rewrite head_div, head_mod by auto. cbn [N.eqb Pos.eqb orb].
+  rewrite <- app_assoc, Hr. cbn [bind]. rewrite app_length in Hf.
+  assert (HKL : Forall (fun x => enc (fst (snd x)) = Ok (fst x)) L).
+  { eapply Forall_impl; [|exact HL]. intros x Hx. apply Hx. }
+  rewrite (enc_dec_map f L None body HL HC Eb).
+  - cbn [norm]. do 3 f_equal.
+    assert (Emap : map (fun kv : value * value => (key_bytes (fst kv), (norm (fst kv), norm (snd kv)))) es =
+                   map_payload (fun kv : value * value => (norm (fst kv), norm (snd kv))) L0).
+    { unfold map_payload, L0. rewrite map_map. reflexivity. }
+    rewrite Emap, sort_by_payload. fold L. unfold map_payload. rewrite map_map. reflexivity.
+  - lia.
+  - pose proof (concat_entries_length _ _ HKL Eb). rewrite app_length. lia.
+Qed.
+
+Lemma enc_dec_value : forall v, rt_spec v.
+Proof.
+  induction v using value_ind'.
+  - intros pre He _ fuel rest Hf. cbn [enc] in He. inversion He; subst. destruct fuel; [cbn in Hf; lia|].
+    destruct b; reflexivity.
+  - intros pre He _ fuel rest Hf. cbn [enc] in He. inversion He; subst. destruct fuel; [cbn in Hf; lia|]. reflexivity.
+  - intros pre He Hg fuel rest Hf. cbn [enc] in He. inversion He; subst.
+    destruct (fuel_S _ _ (enc_nonempty _ _ (eq_refl : enc (VInt z) = Ok (enc_int z))) Hf) as (f & -> & _).
+    apply enc_int_dec. apply good_int; auto.
+  - apply rt_float.
+  - intros pre He Hg fuel rest Hf. cbn [enc] in He. inversion He; subst.
+    destruct (fuel_S _ _ (enc_nonempty _ _ (eq_refl : enc (VText s) = Ok _)) Hf) as (f & -> & _).
+    destruct (good_text _ Hg) as (Hw & Hu & Hl). apply (rt_strings true); auto.
+  - intros pre He Hg fuel rest Hf. cbn [enc] in He. inversion He; subst.
+    destruct (fuel_S _ _ (enc_nonempty _ _ (eq_refl : enc (VBytes s) = Ok _)) Hf) as (f & -> & _).
+    destruct (good_bytes _ Hg) as (Hw & Hl). apply (rt_strings false); auto. discriminate.
+  - apply rt_array; auto.
+  - apply rt_map; auto.
+  - intros pre He. discriminate.
+Qed.
+
+Theorem cbor_roundtrip_core v b :
+  wf_value v = true -> enc v = Ok b -> decode b = Ok (norm v).
+Proof.
+  intros Hg He. unfold decode.
+  pose proof (enc_dec_value v b He Hg (S (length b)) [] (Nat.le_succ_diag_r _)) as H.
+  rewrite app_nil_r in H. rewrite H. reflexivity.
+Qed.
+
+(* ================================================================== corollaries *)
+Theorem cbor_decode_injective_core b1 b2 v :
+  wf_bytes b1 = true -> wf_bytes b2 = true -> decode b1 = Ok v -> decode b2 = Ok v -> b1 = b2.
+Proof.
+  intros W1 W2 D1 D2. pose proof (cbor_canonical_core _ _ W1 D1) as E1.
+  pose proof (cbor_canonical_core _ _ W2 D2) as E2. congruence.
+Qed.
+(* ================================================================== decoder output: well formed, normal; trailing bytes *)
+(* ------------------------------------------------------------------ decoder output is well formed *)
+Lemma widen32_bound s : s < 4294967296 -> widen32 s < 2 ^ 64.
+Proof.
+  intros Hs32. change 4294967296 with (2 ^ (1 + 8 + 23)) in Hs32.
+  pose proof (fsign_lt 8 23 s Hs32) as Hs. pose proof (fexp_lt 8 23 s) as He. pose proof (fman_lt 23 s) as Hm.
+  rewrite widen32_eq. cbv zeta. revert Hs He Hm. generalize (fsign 8 23 s) (fexp 8 23 s) (fman 23 s).
+  intros s0 e m Hs He Hm. rewrite P8 in He. rewrite P23 in Hm.
+  change (2 ^ 64) with (2 ^ (1 + 11 + 52)).
+  destruct (e =? 255).
+  { destruct (m =? 0); apply fpack_lt; auto; try (rewrite P11; lia); try (rewrite P52; lia).
+    apply lor_lt; [apply N.pow_lt_mono_r; lia|]. rewrite shl_spec, P29, P52. lia. }
+  destruct (N.eqb_spec e 0) as [E0|NE0].
+  { destruct (N.eqb_spec m 0) as [M0|NM0]; [apply fpack_lt; auto; [rewrite P11|rewrite P52]; lia|].
+    set (p := N.log2 m).
+    assert (Hlog : 2 ^ p <= m < 2 ^ N.succ p) by (apply N.log2_spec; lia).
+    destruct Hlog as [L1 L2]. rewrite <- N.add_1_r in L2.
+    assert (Hp22 : p <= 22).
+    { apply N.lt_succ_r. apply (N.pow_lt_mono_r_iff 2); [lia|]. rewrite N.pow_succ_r'.
+      change (2 * 2 ^ 22) with 8388608. lia. }
+    destruct (subnormal_widen m p ltac:(lia) L1 L2) as (B1 & _ & _).
+    apply fpack_lt; auto; [rewrite P11; lia|]. rewrite shl_spec. exact B1. }
+  apply fpack_lt; auto; [rewrite P11; lia|]. rewrite shl_spec, P29, P52. lia.
+Qed.
+
+Definition wf_spec (d : bytes -> result (value * bytes)) : Prop :=
+  forall b v rest, wf_bytes b = true -> d b = Ok (v, rest) -> wf_value v = true.
+
+Lemma dec_seq_wf d (Hd : wf_spec d) (Hc : canon_spec d) :
+  forall k n b vs rest, wf_bytes b = true -> dec_seq d k n b = Ok (vs, rest) ->
+    forallb wf_value vs = true /\ lenN vs = n.
+Proof.
+  induction k as [|k IH]; intros n b vs rest Hwf H; cbn [dec_seq] in H.
+  - destruct (N.eqb_spec n 0) as [->|]; [|discriminate]. inversion H; subst. auto.
+  - destruct (N.eqb_spec n 0) as [->|Hn0]; [inversion H; subst; auto|].
+    apply bind_ok in H as ((v & b1) & Hv & H). apply bind_ok in H as ((vs' & b2) & Hs & H). inversion H; subst.
+    destruct (Hc _ _ _ Hwf Hv) as (p1 & -> & _). apply wf_bytes_app_iff in Hwf as [Hp1 Hwf1].
+    destruct (IH _ _ _ _ Hwf1 Hs) as [A B]. cbn [forallb].
+    rewrite (Hd _ _ _ (proj2 (wf_bytes_app_iff _ _) (conj Hp1 Hwf1)) Hv), A. split; auto.
+    unfold lenN in *. cbn [length]. lia.
+Qed.
+
+Lemma dec_map_wf d (Hd : wf_spec d) (Hc : canon_spec d) :
+  forall k n last b es rest, wf_bytes b = true -> dec_map d k n last b = Ok (es, rest) ->
+    forallb (fun kv => wf_value (fst kv) && wf_value (snd kv)) es = true /\ lenN es = n.
+Proof.
+  induction k as [|k IH]; intros n last b es rest Hwf H; cbn [dec_map] in H.
+  - destruct (N.eqb_spec n 0) as [->|]; [|discriminate]. inversion H; subst. auto.
+  - destruct (N.eqb_spec n 0) as [->|Hn0]; [inversion H; subst; auto|].
+    apply bind_ok in H as ((kv & b1) & Hk & H). apply bind_ok in H as ([] & _ & H).
+    apply bind_ok in H as ((vv & b2) & Hv & H). apply bind_ok in H as ((es' & b3) & Hs & H). inversion H; subst.
+    pose proof (Hd _ _ _ Hwf Hk) as Wk.
+    destruct (Hc _ _ _ Hwf Hk) as (pk & -> & _). apply wf_bytes_app_iff in Hwf as [_ Hwf1].
+    pose proof (Hd _ _ _ Hwf1 Hv) as Wv.
+    destruct (Hc _ _ _ Hwf1 Hv) as (pv & -> & _). apply wf_bytes_app_iff in Hwf1 as [_ Hwf2].
+    destruct (IH _ _ _ _ _ Hwf2 Hs) as [A B]. cbn [forallb fst snd]. rewrite Wk, Wv, A. split; auto.
+    unfold lenN in *. cbn [length]. lia.
+Qed.
+
+Lemma P64 : 2 ^ 64 = 18446744073709551616.
+Proof. reflexivity. Qed.
+
+Lemma dec_value_wf : forall fuel, wf_spec (dec_value fuel).
+Proof.
+  induction fuel as [|f IH]; intros b v rest Hwf H; [discriminate|].
+  pose proof (dec_value_canonical f) as Hc.
+  cbn [dec_value] in H. destruct b as [|b0 r]; [discriminate|].
+  apply wf_bytes_cons in Hwf as [Hb0 Hwr].
+  pose proof (head_info_lt b0) as Hinfo.
+  set (major := b0 / 32) in *. set (info := b0 mod 32) in *.
+  destruct (major =? 0).
+  { apply bind_ok in H as ((n & r1) & Hr & H). inversion H; subst v rest. clear H.
+    destruct (read_len_inv _ _ _ _ Hwr Hinfo Hr) as (ext & -> & Hn64 & _ & _).
+    cbn [wf_value]. rewrite P64 in Hn64. change (2 ^ 64)%Z with 18446744073709551616%Z.
+    apply andb_true_iff. split; [apply Z.leb_le|apply Z.ltb_lt]; lia. }
+  destruct (major =? 1).
+  { apply bind_ok in H as ((n & r1) & Hr & H).
+    assert (HH : v = VInt (-1 - Z.of_N n)) by congruence. subst v. clear H.
+    destruct (read_len_inv _ _ _ _ Hwr Hinfo Hr) as (ext & -> & Hn64 & _ & _).
+    cbn [wf_value]. rewrite P64 in Hn64. change (2 ^ 64)%Z with 18446744073709551616%Z.
+    apply andb_true_iff. split; [apply Z.leb_le|apply Z.ltb_lt]; lia. }
+  destruct ((major =? 2) || (major =? 3)).
+  { apply bind_ok in H as ((n & r1) & Hr & H).
+    destruct (N.ltb_spec (lenN r1) n) as [|Hle]; [discriminate|].
+    destruct (read_len_inv _ _ _ _ Hwr Hinfo Hr) as (ext & -> & Hn64 & _ & _).
+    apply wf_bytes_app_iff in Hwr as [_ Hw1].
+    pose proof (wf_bytes_firstn (N.to_nat n) r1 Hw1) as Wd.
+    pose proof (lenN_firstn n r1 Hle) as Ld.
+    destruct (major =? 2).
+    - inversion H; subst v rest. cbn [wf_value]. rewrite Wd, Ld. apply N.ltb_lt in Hn64. rewrite Hn64. reflexivity.
+    - destruct (utf8_valid (firstn (N.to_nat n) r1)) eqn:U; [|discriminate].
+      inversion H; subst v rest. cbn [wf_value]. rewrite Wd, U, Ld. apply N.ltb_lt in Hn64. rewrite Hn64. reflexivity. }
+  destruct (major =? 4).
+  { apply bind_ok in H as ((n & r1) & Hr & H). apply bind_ok in H as ((items & r2) & Hs & H).
+    inversion H; subst v rest. clear H.
+    destruct (read_len_inv _ _ _ _ Hwr Hinfo Hr) as (ext & -> & Hn64 & _ & _).
+    apply wf_bytes_app_iff in Hwr as [_ Hw1].
+    destruct (dec_seq_wf _ IH Hc _ _ _ _ _ Hw1 Hs) as [A B].
+    cbn [wf_value]. rewrite A, B. apply N.ltb_lt in Hn64. rewrite Hn64. reflexivity. }
+  destruct (major =? 5).
+  { apply bind_ok in H as ((n & r1) & Hr & H). apply bind_ok in H as ((es & r2) & Hs & H).
+    inversion H; subst v rest. clear H.
+    destruct (read_len_inv _ _ _ _ Hwr Hinfo Hr) as (ext & -> & Hn64 & _ & _).
+    apply wf_bytes_app_iff in Hwr as [_ Hw1].
+    destruct (dec_map_wf _ IH Hc _ _ _ _ _ _ Hw1 Hs) as [A B].
+    cbn [wf_value]. rewrite A, B. apply N.ltb_lt in Hn64. rewrite Hn64. reflexivity. }
+  destruct (major =? 6); [discriminate|].
+  destruct (info =? 20); [inversion H; reflexivity|].
+  destruct (info =? 21); [inversion H; reflexivity|].
+  destruct (info =? 22); [inversion H; reflexivity|].
+  destruct (info =? 25).
+  { unfold dec_float16 in H. apply bind_ok in H as ((h & r1) & Hr & H).
+    apply read_uint_ok in Hr as (ext & -> & Hl & ->). apply wf_bytes_app_iff in Hwr as [Hwe _].
+    pose proof (from_be_bound ext Hwe) as B. rewrite Hl in B. change (256 ^ N.of_nat 2) with 65536 in B.
+    destruct (f64_is_nan (widen16 (from_be ext)) && negb (from_be ext =? 32256)); [discriminate|].
+    destruct (f64_to_int (widen16 (from_be ext))); [discriminate|]. inversion H; subst v rest.
+    cbn [wf_value]. apply N.ltb_lt. apply widen16_bound; auto. }
+  destruct (info =? 26).
+  { unfold dec_float32 in H. apply bind_ok in H as ((h & r1) & Hr & H).
+    apply read_uint_ok in Hr as (ext & -> & Hl & ->). apply wf_bytes_app_iff in Hwr as [Hwe _].
+    pose proof (from_be_bound ext Hwe) as B. rewrite Hl in B. change (256 ^ N.of_nat 4) with 4294967296 in B.
+    destruct (f64_to_int (widen32 (from_be ext))); [discriminate|].
+    destruct (f64_is_nan (widen32 (from_be ext))); [discriminate|].
+    destruct (narrow16 (widen32 (from_be ext))); [discriminate|]. inversion H; subst v rest.
+    cbn [wf_value]. apply N.ltb_lt. apply widen32_bound; auto. }
+  destruct (info =? 27).
+  { unfold dec_float64 in H. apply bind_ok in H as ((h & r1) & Hr & H).
+    apply read_uint_ok in Hr as (ext & -> & Hl & ->). apply wf_bytes_app_iff in Hwr as [Hwe _].
+    pose proof (from_be_bound ext Hwe) as B. rewrite Hl in B. change (256 ^ N.of_nat 8) with (2 ^ 64) in B.
+    destruct (f64_to_int (from_be ext)); [discriminate|].
+    destruct (f64_is_nan (from_be ext)); [discriminate|].
+    destruct (narrow16 (from_be ext)); [discriminate|].
+    destruct (narrow32 (from_be ext)); [discriminate|]. inversion H; subst v rest.
+    cbn [wf_value]. apply N.ltb_lt. exact B. }
+  destruct (info =? 31); discriminate.
+Qed.
+
+Theorem decode_output_wf b v : wf_bytes b = true -> decode b = Ok v -> wf_value v = true.
+Proof.
+  intros Hwf H. unfold decode in H.
+  destruct (dec_value (S (length b)) b) as [[v' rest]|e] eqn:E; [|discriminate].
+  destruct rest; [|discriminate]. inversion H; subst v'. apply (dec_value_wf _ _ _ _ Hwf E).
+Qed.
+
+Theorem decode_output_normal b v : wf_bytes b = true -> decode b = Ok v -> norm v = v.
+Proof.
+  intros Hwf H. pose proof (decode_output_wf _ _ Hwf H) as W.
+  pose proof (cbor_canonical_core _ _ Hwf H) as E.
+  pose proof (cbor_roundtrip_core _ _ W E) as R. congruence.
+Qed.
+
+Theorem reject_trailing b v x xs :
+  wf_bytes b = true -> decode b = Ok v -> decode (b ++ x :: xs) = Err ETrailing.
+Proof.
+  intros Hwf H. pose proof (decode_output_wf _ _ Hwf H) as W.
+  pose proof (cbor_canonical_core _ _ Hwf H) as E.
+  pose proof (decode_output_normal _ _ Hwf H) as Nv.
+  unfold decode.
+  rewrite (enc_dec_value v b E W (S (length (b ++ x :: xs))) (x :: xs)).
+  - reflexivity.
+  - rewrite app_length. lia.
+Qed.
+
+(* ================================================================== encoder output is bytes; rejection lemmas *)
+(* ------------------------------------------------------------------ encoder output is bytes *)
+Lemma write_major_wf major n : major < 8 -> wf_bytes (write_major major n) = true.
+Proof.
+  intros Hm. unfold write_major.
+  destruct (N.ltb_spec n 24); [apply wf_bytes_cons; split; [lia|reflexivity]|].
+  destruct (N.ltb_spec n 256); [apply wf_bytes_cons; split; [lia|apply wf_bytes_cons; split; [lia|reflexivity]]|].
+  destruct (N.ltb_spec n 65536); [apply wf_bytes_cons; split; [lia|apply be_bytes_wf]|].
+  destruct (N.ltb_spec n 4294967296); apply wf_bytes_cons; (split; [lia|apply be_bytes_wf]).
+Qed.
+
+Lemma enc_int_wf z : wf_bytes (enc_int z) = true.
+Proof. unfold enc_int. destruct (0 <=? z)%Z; apply write_major_wf; lia. Qed.
+
+Lemma enc_float_wf b : wf_bytes (enc_float b) = true.
+Proof.
+  unfold enc_float.
+  destruct (f64_is_nan b); [reflexivity|].
+  destruct (f64_is_inf b); [destruct (fsign 11 52 b =? 0); reflexivity|].
+  destruct (f64_to_int b); [apply enc_int_wf|].
+  destruct (narrow16 b); [apply wf_bytes_cons; split; [lia|apply be_bytes_wf]|].
+  destruct (narrow32 b); apply wf_bytes_cons; (split; [lia|apply be_bytes_wf]).
+Qed.
+
+Definition encwf_spec (v : value) : Prop := forall b, wf_value v = true -> enc v = Ok b -> wf_bytes b = true.
+
+Lemma concat_results_wf l :
+  Forall encwf_spec l -> forallb wf_value l = true ->
+  forall body, concat_results (map enc l) = Ok body -> wf_bytes body = true.
+Proof.
+  induction l as [|x l IH]; intros HF Hg body H; cbn [map concat_results] in H.
+  - inversion H. reflexivity.
+  - apply bind_ok in H as (bx & Ex & H). apply bind_ok in H as (bs & Es & H). inversion H; subst.
+    inversion HF as [|? ? Hx HF']; subst. cbn [forallb] in Hg. apply andb_true_iff in Hg as [G1 G2].
+    apply wf_bytes_app_iff. split; [apply (Hx _ G1 Ex)|apply (IH HF' G2 _ Es)].
+Qed.
+
+Lemma concat_entries_wf (L : list (bytes * result bytes)) body :
+  Forall (fun x => wf_bytes (fst x) = true /\ forall vb, snd x = Ok vb -> wf_bytes vb = true) L ->
+  concat_results (map entry_bytes L) = Ok body -> wf_bytes body = true.
+Proof.
+  revert body; induction L as [|x L IH]; intros body HF H; cbn [map concat_results] in H.
+  - inversion H. reflexivity.
+  - apply bind_ok in H as (bx & Ex & H). apply bind_ok in H as (bs & Es & H). inversion H; subst.
+    inversion HF as [|? ? [Hk Hv] HF']; subst.
+    unfold entry_bytes in Ex. apply bind_ok in Ex as (vb & Ev & Ex). inversion Ex; subst.
+    apply wf_bytes_app_iff. split; [apply wf_bytes_app_iff; split; [exact Hk|apply Hv; exact Ev]|apply (IH _ HF' Es)].
+Qed.
+
+Lemma enc_wf : forall v, encwf_spec v.
+Proof.
+  induction v using value_ind'; intros bb Hg He; cbn [enc] in He.
+  - inversion He. destruct b; reflexivity.
+  - inversion He. reflexivity.
+  - inversion He. apply enc_int_wf.
+  - inversion He. apply enc_float_wf.
+  - inversion He. destruct (good_text _ Hg) as (W & _ & _). apply wf_bytes_app_iff. split; [apply write_major_wf; lia|exact W].
+  - inversion He. destruct (good_bytes _ Hg) as (W & _). apply wf_bytes_app_iff. split; [apply write_major_wf; lia|exact W].
+  - apply bind_ok in He as (body & Eb & He). inversion He.
+    destruct (good_array _ Hg) as [_ Hgl].
+    apply wf_bytes_app_iff. split; [apply write_major_wf; lia|]. apply (concat_results_wf l H Hgl _ Eb).
+  - unfold finish_map in He. apply bind_ok in He as (kvs & Ek & He).
+    destruct (seq_keys_inv _ _ Ek) as [-> HK].
+    set (L0 := map (fun kv : value * value => (key_bytes (fst kv), kv)) es) in *.
+    destruct (adjacent_dup (sort_by (map_payload (fun kv : value * value => enc (snd kv)) L0))); [discriminate|].
+    apply bind_ok in He as (body & Eb & He). inversion He.
+    destruct (good_map _ Hg) as [_ Hgl].
+    apply wf_bytes_app_iff. split; [apply write_major_wf; lia|].
+    eapply concat_entries_wf; [|exact Eb].
+    apply Forall_forall. intros x Hx. apply sort_by_in in Hx.
+    unfold map_payload, L0 in Hx. rewrite map_map in Hx. apply in_map_iff in Hx as (kv & <- & Hin). cbn [fst snd].
+    rewrite Forall_forall in H, HK. destruct (H _ Hin) as [Sk Sv].
+    rewrite forallb_forall in Hgl. specialize (Hgl _ Hin). apply andb_true_iff in Hgl as [Gk Gv].
+    split; [apply (Sk _ Gk (HK _ Hin))|intros vb Ev; apply (Sv _ Gv Ev)].
+  - discriminate.
+Qed.
+
+(* any byte string other than THE canonical encoding of a value does not decode to it *)
+Theorem noncanonical_rejected v b b' :
+  wf_value v = true -> enc v = Ok b -> wf_bytes b' = true -> b' <> b -> decode b' <> Ok (norm v).
+Proof.
+  intros W E W' Hne Hd.
+  pose proof (enc_wf v b W E) as Wb.
+  pose proof (cbor_roundtrip_core _ _ W E) as R.
+  apply Hne. apply (cbor_decode_injective_core b' b (norm v)); auto.
+Qed.
+
+(* ------------------------------------------------------------------ rejection by class *)
+Lemma decode_head_err b0 r e :
+  (forall f, dec_value (S f) (b0 :: r) = Err e) -> decode (b0 :: r) = Err e.
+Proof. intros H. unfold decode. cbn [length]. rewrite H. reflexivity. Qed.
+
+Lemma decode_head_err' b0 r (P : err -> Prop) :
+  (forall f, exists e, dec_value (S f) (b0 :: r) = Err e /\ P e) -> exists e, decode (b0 :: r) = Err e /\ P e.
+Proof.
+  intros H. destruct (H (S (length r))) as (e & He & Hp). exists e. split; auto.
+  unfold decode. cbn [length]. rewrite He. reflexivity.
+Qed.
+
+Theorem reject_tag b0 r : 192 <= b0 < 224 -> decode (b0 :: r) = Err ETag.
+Proof.
+  intros H. apply decode_head_err. intros f. cbn [dec_value].
+  assert (E : b0 / 32 = 6).
+  { symmetry. apply N.div_unique with (r := b0 - 192); lia. }
+  rewrite E. reflexivity.
+Qed.
+
+Theorem reject_indefinite b0 r :
+  In b0 [0x1f; 0x3f; 0x5f; 0x7f; 0x9f; 0xbf; 0xff] -> decode (b0 :: r) = Err EIndefinite.
+Proof.
+  intros H. apply decode_head_err. intros f.
+  cbn [In] in H. repeat (destruct H as [<-|H]; [reflexivity|]). contradiction.
+Qed.
+
+(* a head whose argument would fit a narrower width is rejected (integers, and the lengths of
+   byte strings, text, arrays and maps) *)
+Definition wide_info (w : nat) : N := match w with 1%nat => 24 | 2%nat => 25 | 4%nat => 26 | _ => 27 end.
+Definition narrow_limit (w : nat) : N := match w with 1%nat => 23 | 2%nat => 255 | 4%nat => 65535 | _ => 4294967295 end.
+
+Theorem reject_nonminimal_head major w n rest :
+  major < 6 -> In w [1%nat; 2%nat; 4%nat; 8%nat] -> n <= narrow_limit w ->
+  decode ((major * 32 + wide_info w) :: be_bytes w n ++ rest) = Err ENonCanonInt.
+Proof.
+  intros Hm Hw Hn. apply decode_head_err. intros f. cbn [dec_value].
+  assert (Hi : wide_info w < 32) by (cbn [In] in Hw; destruct Hw as [<-|[<-|[<-|[<-|[]]]]]; cbn; lia).
+  rewrite head_div, head_mod by exact Hi.
+  assert (Hrl : read_len (wide_info w) (be_bytes w n ++ rest) = Err ENonCanonInt).
+  { cbn [In] in Hw. destruct Hw as [<-|[<-|[<-|[<-|[]]]]]; cbn [wide_info narrow_limit] in *; unfold read_len;
+      cbn [N.ltb N.eqb N.compare Pos.compare Pos.compare_cont Pos.eqb];
+      rewrite read_uint_be by (cbn; lia); cbn [bind];
+      match goal with |- (if ?c then _ else _) = _ => destruct c eqn:C end; try reflexivity;
+      apply N.leb_gt in C; lia. }
+  assert (major = 0 \/ major = 1 \/ major = 2 \/ major = 3 \/ major = 4 \/ major = 5) as Hc by lia.
+  destruct Hc as [->|[->|[->|[->|[->| ->]]]]]; cbn [N.eqb Pos.eqb orb]; rewrite Hrl; reflexivity.
+Qed.
+
+Theorem reject_f16_nan_payload h rest :
+  h < 65536 -> f64_is_nan (widen16 h) = true -> h <> 0x7e00 ->
+  decode (0xf9 :: be_bytes 2 h ++ rest) = Err ENonCanonFloat.
+Proof.
+  intros Hh Hn Hne. apply decode_head_err. intros f.
+  change (dec_value (S f) (249 :: be_bytes 2 h ++ rest)) with (dec_float16 (be_bytes 2 h ++ rest)).
+  unfold dec_float16. rewrite read_uint_be by exact Hh. cbn [bind]. rewrite Hn.
+  destruct (N.eqb_spec h 32256); [contradiction|]. reflexivity.
+Qed.
+
+(* a float that has an integer spelling is rejected at every width *)
+Theorem reject_integral_float_f64 b z rest :
+  b < 2 ^ 64 -> f64_to_int b = Some z -> decode (0xfb :: be_bytes 8 b ++ rest) = Err EFloatShouldBeInt.
+Proof.
+  intros Hb Hz. apply decode_head_err. intros f.
+  change (dec_value (S f) (251 :: be_bytes 8 b ++ rest)) with (dec_float64 (be_bytes 8 b ++ rest)).
+  unfold dec_float64. rewrite read_uint_be by exact Hb. cbn [bind]. rewrite Hz. reflexivity.
+Qed.
+
+Theorem reject_integral_float_f32 s z rest :
+  s < 4294967296 -> f64_to_int (widen32 s) = Some z -> decode (0xfa :: be_bytes 4 s ++ rest) = Err EFloatShouldBeInt.
+Proof.
+  intros Hs Hz. apply decode_head_err. intros f.
+  change (dec_value (S f) (250 :: be_bytes 4 s ++ rest)) with (dec_float32 (be_bytes 4 s ++ rest)).
+  unfold dec_float32. rewrite read_uint_be by exact Hs. cbn [bind]. rewrite Hz. reflexivity.
+Qed.
+
+(* a float that fits a narrower width is rejected at the wider ones *)
+Theorem reject_wide_float_f64 b rest :
+  b < 2 ^ 64 -> (f64_is_nan b = true \/ narrow16 b <> None \/ narrow32 b <> None) ->
+  exists e, decode (0xfb :: be_bytes 8 b ++ rest) = Err e /\ (e = ENonCanonFloat \/ e = EFloatShouldBeInt).
+Proof.
+  intros Hb H. apply (decode_head_err' 251 (be_bytes 8 b ++ rest) (fun e => e = ENonCanonFloat \/ e = EFloatShouldBeInt)).
+  { intros f. change (dec_value (S f) (251 :: be_bytes 8 b ++ rest)) with (dec_float64 (be_bytes 8 b ++ rest)).
+    unfold dec_float64. rewrite read_uint_be by exact Hb. cbn [bind].
+    destruct (f64_to_int b); [eauto|]. destruct (f64_is_nan b); [eauto|].
+    destruct (narrow16 b); [eauto|]. destruct (narrow32 b); [eauto|].
+    destruct H as [H|[H|H]]; [discriminate|contradiction|contradiction]. }
+Qed.
+
+Theorem reject_wide_float_f32 s rest :
+  s < 4294967296 -> (f64_is_nan (widen32 s) = true \/ narrow16 (widen32 s) <> None) ->
+  exists e, decode (0xfa :: be_bytes 4 s ++ rest) = Err e /\ (e = ENonCanonFloat \/ e = EFloatShouldBeInt).
+Proof.
+  intros Hs H. apply (decode_head_err' 250 (be_bytes 4 s ++ rest) (fun e => e = ENonCanonFloat \/ e = EFloatShouldBeInt)).
+  { intros f. change (dec_value (S f) (250 :: be_bytes 4 s ++ rest)) with (dec_float32 (be_bytes 4 s ++ rest)).
+    unfold dec_float32. rewrite read_uint_be by exact Hs. cbn [bind].
+    destruct (f64_to_int (widen32 s)); [eauto|]. destruct (f64_is_nan (widen32 s)); [eauto|].
+    destruct (narrow16 (widen32 s)); [eauto|].
+    destruct H as [H|H]; [discriminate|contradiction]. }
+Qed.
+
+(* ================================================================== fuel adequacy *)
+(* ------------------------------------------------------------------ the fuel never runs out *)
+Lemma bind_err {A B} (r : result A) (f : A -> result B) e :
+  bind r f = Err e -> r = Err e \/ exists a, r = Ok a /\ f a = Err e.
+Proof. destruct r as [a|e']; cbn; intros H; [right; eauto|left; congruence]. Qed.
+
+Lemma read_uint_not_fuel k r : read_uint k r <> Err EFuel.
+Proof. unfold read_uint. destruct (length r <? k)%nat; discriminate. Qed.
+
+Lemma read_len_not_fuel info r : read_len info r <> Err EFuel.
+Proof.
+  unfold read_len. intros H.
+  repeat match type of H with
+         | (if ?c then _ else _) = _ => destruct c
+         end; try discriminate;
+  (apply bind_err in H as [H|((v & r0) & _ & H)]; [exact (read_uint_not_fuel _ _ H)|];
+   match type of H with (if ?c then _ else _) = _ => destruct c end; discriminate).
+Qed.
+
+Lemma dec_float_not_fuel r : dec_float16 r <> Err EFuel /\ dec_float32 r <> Err EFuel /\ dec_float64 r <> Err EFuel.
+Proof.
+  unfold dec_float16, dec_float32, dec_float64. repeat split; intros H;
+    (apply bind_err in H as [H|((v & r0) & _ & H)]; [exact (read_uint_not_fuel _ _ H)|]);
+    repeat match type of H with
+           | (if ?c then _ else _) = _ => destruct c
+           | match ?c with Some _ => _ | None => _ end = _ => destruct c
+           end; discriminate.
+Qed.
+
+Definition consumes (d : bytes -> result (value * bytes)) : Prop :=
+  forall b v r, wf_bytes b = true -> d b = Ok (v, r) -> (length r < length b)%nat /\ wf_bytes r = true.
+
+Lemma dec_value_consumes fuel : consumes (dec_value fuel).
+Proof.
+  intros b v r Hwf H. destruct (dec_value_canonical fuel _ _ _ Hwf H) as (pre & -> & E).
+  apply wf_bytes_app_iff in Hwf as [_ Hr]. split; auto.
+  pose proof (enc_nonempty _ _ E). rewrite app_length. lia.
+Qed.
+
+Lemma dec_seq_no_fuel d F :
+  (forall b, wf_bytes b = true -> (length b < F)%nat -> d b <> Err EFuel) -> consumes d ->
+  forall k n b, wf_bytes b = true -> (length b < k)%nat -> (length b < F)%nat -> dec_seq d k n b <> Err EFuel.
+Proof.
+  intros Hnf Hc. induction k as [|k IH]; intros n b Hwf Hk HF H; [lia|].
+  cbn [dec_seq] in H. destruct (n =? 0); [discriminate|].
+  apply bind_err in H as [H|((v & b1) & Hd & H)]; [exact (Hnf _ Hwf HF H)|].
+  destruct (Hc _ _ _ Hwf Hd) as [Hl Hw1].
+  apply bind_err in H as [H|((vs & b2) & _ & H)]; [|discriminate].
+  apply (IH (n - 1) b1 Hw1); auto; lia.
+Qed.
+
+Lemma dec_map_no_fuel d F :
+  (forall b, wf_bytes b = true -> (length b < F)%nat -> d b <> Err EFuel) -> consumes d ->
+  forall k n last b, wf_bytes b = true -> (length b < k)%nat -> (length b < F)%nat -> dec_map d k n last b <> Err EFuel.
+Proof.
+  intros Hnf Hc. induction k as [|k IH]; intros n last b Hwf Hk HF H; [lia|].
+  cbn [dec_map] in H. destruct (n =? 0); [discriminate|].
+  apply bind_err in H as [H|((kv & b1) & Hd & H)]; [exact (Hnf _ Hwf HF H)|].
+  destruct (Hc _ _ _ Hwf Hd) as [Hl Hw1].
+  apply bind_err in H as [H|([] & _ & H)].
+  { destruct last as [prev|]; [|discriminate].
+    destruct (bytes_cmp (firstn (length b - length b1) b) prev); discriminate. }
+  apply bind_err in H as [H|((vv & b2) & Hd2 & H)]; [apply (Hnf _ Hw1 ltac:(lia) H)|].
+  destruct (Hc _ _ _ Hw1 Hd2) as [Hl2 Hw2].
+  apply bind_err in H as [H|((es & b3) & _ & H)]; [|discriminate].
+  apply (IH (n - 1) (Some (firstn (length b - length b1) b)) b2 Hw2); auto; lia.
+Qed.
+
+Lemma read_len_suffix info r n r1 : read_len info r = Ok (n, r1) -> (length r1 <= length r)%nat.
+Proof.
+  unfold read_len. intros H.
+  repeat match type of H with
+         | (if ?c then _ else _) = _ => destruct c
+         end; try discriminate; try (inversion H; subst; lia);
+  (apply bind_ok in H as ((v & r0) & Hu & H); apply read_uint_ok in Hu as (ext & -> & _ & _);
+   match type of H with (if ?c then _ else _) = _ => destruct c end; [discriminate|];
+   inversion H; subst; rewrite app_length; lia).
+Qed.
+
+Lemma dec_value_no_fuel : forall fuel b, wf_bytes b = true -> (length b < fuel)%nat -> dec_value fuel b <> Err EFuel.
+Proof.
+  induction fuel as [|f IH]; intros b Hwf Hl H; [lia|].
+  cbn [dec_value] in H. destruct b as [|b0 r]; [discriminate|].
+  apply wf_bytes_cons in Hwf as [Hb0 Hwr]. cbn [length] in Hl.
+  pose proof (head_info_lt b0) as Hinfo.
+  set (major := b0 / 32) in *. set (info := b0 mod 32) in *.
+  destruct (major =? 0).
+  { apply bind_err in H as [H|((n & r1) & _ & H)]; [exact (read_len_not_fuel _ _ H)|discriminate]. }
+  destruct (major =? 1).
+  { apply bind_err in H as [H|((n & r1) & _ & H)]; [exact (read_len_not_fuel _ _ H)|discriminate]. }
+  destruct ((major =? 2) || (major =? 3)).
+  { apply bind_err in H as [H|((n & r1) & _ & H)]; [exact (read_len_not_fuel _ _ H)|].
+    destruct (lenN r1 <? n); [discriminate|]. destruct (major =? 2); [discriminate|].
+    destruct (utf8_valid _); discriminate. }
+  destruct (major =? 4).
+  { apply bind_err in H as [H|((n & r1) & Hr & H)]; [exact (read_len_not_fuel _ _ H)|].
+    destruct (read_len_inv _ _ _ _ Hwr Hinfo Hr) as (ext & -> & _).
+    apply wf_bytes_app_iff in Hwr as [_ Hw1]. rewrite app_length in Hl.
+    apply bind_err in H as [H|((items & r2) & _ & H)]; [|discriminate].
+    apply (dec_seq_no_fuel (dec_value f) f (fun b W L => IH b W L) (dec_value_consumes f) _ _ _ Hw1) in H; auto; lia. }
+  destruct (major =? 5).
+  { apply bind_err in H as [H|((n & r1) & Hr & H)]; [exact (read_len_not_fuel _ _ H)|].
+    destruct (read_len_inv _ _ _ _ Hwr Hinfo Hr) as (ext & -> & _).
+    apply wf_bytes_app_iff in Hwr as [_ Hw1]. rewrite app_length in Hl.
+    apply bind_err in H as [H|((items & r2) & _ & H)]; [|discriminate].
+    apply (dec_map_no_fuel (dec_value f) f (fun b W L => IH b W L) (dec_value_consumes f) _ _ _ _ Hw1) in H; auto; lia. }
+  destruct (major =? 6); [discriminate|].
+  destruct (dec_float_not_fuel r) as (F16 & F32 & F64).
+  repeat match type of H with
+         | (if ?c then _ else _) = _ => destruct c
+         end; try discriminate; auto.
+Qed.
+
+Theorem decode_never_out_of_fuel b : wf_bytes b = true -> decode b <> Err EFuel.
+Proof.
+  intros Hwf H. unfold decode in H.
+  destruct (dec_value (S (length b)) b) as [[v [|x rest]]|e] eqn:E; try discriminate.
+  inversion H; subst e. apply (dec_value_no_fuel _ _ Hwf (Nat.lt_succ_diag_r _) E).
+Qed.
+
